@@ -12,1242 +12,2550 @@ Definition show_fres (r : fres) : string :=
   end.
 Definition check (rs : list rune) : string := digest (show_fres (format_res rs)).
 Definition full (rs : list rune) : string := show_fres (format_res rs).
-Eval vm_compute in ("<<<M1574>>>" ++ check (runes_of_ascii "options {
-    ArrayPrefixLenType = u16;
-    FixedStringPadFromLeft = true;
-    JavaPackage = ""com.example.msg"";
-    GoPackage = ""msg"";
-    GoModule = ""example.com/msg"";
+Eval vm_compute in ("<<<M93>>>" ++ check (runes_of_ascii "
+packet Header{ @lengthOf( options1 )
+@lengthOf( matchKey ) @tag( 10 )i8
+options1 @lengthOf( //	t
+Foo ) `tab	here` ,
+// " ++ [128512]%N ++ runes_of_ascii " emoji
+//	t
+@lengthOf( Pad // " ++ [128512]%N ++ runes_of_ascii " emoji
+) match
+Pad	as u8x { 4294967296 :	i8i8 // `tick` ""quote"" 'q'
+,} ,} packet roots { // " ++ [128512]%N ++ runes_of_ascii " emoji
+packetx @lengthOf(msg_type )
+    , char[0123456789
+// trailing space 
+// @lengthOf(
+] calculatedFrom,i8 Logon , @tag(10 ) @tag( 00 ) zchar[ 65535]
+float  @lengthOf( int )
+, stringy@calculatedFrom(
+// " ++ [128512]%N ++ runes_of_ascii " emoji
+// 50% %s
+""" ++ [233]%N ++ runes_of_ascii "t" ++ [233]%N ++ runes_of_ascii """ /// triple
+)	,
+repeat roots u128 , @calculatedFrom(
+""{,}""
+)chars
+    {
+match roots
+    as	Foo
+{ 10
+:
+trueish,}
+,
 }
-MetaData Meta {
-    u32 SeqNum `sequence number
-more`,
-    char[8] Symbol `symbol
-more`,
-    zchar[5] ZSym `z symbol
-more`,
-    string Note,
-    Symbol AltSymbol `alias of symbol`,
-    f64 Price,
+    , // @lengthOf(
+i8i8 , @calculatedFrom(
+    ""x y"")	@calculatedFrom( ""a\""b"")repeat Z9_
+{
+    f32a msg_type
+    , repeat o	{ zchar[ 0
+    // `tick` ""quote"" 'q'
+    ] charz @calculatedFrom( /// triple
+""CRC32"" ) , } , } ,	}root // " ++ [27880; 37322]%N ++ runes_of_ascii "
+packet BodyLength  {calculatedFrom {
+char[] x @calculatedFrom( ""\n""
+)
+    , _x @calculatedFrom(
+""`tick`"" ), repeat u128 ,
+    float	Packet `
+` ,
+    } ,	repeat
+Foo {
+    uint64 a1 ,	}
+    , repeat char[ 42 ]
+matchKey
+`line1
+line2` ,  match /// triple
+rootA as lengthOf { // `tick` ""quote"" 'q'
+""it's"" :
+    u128 , //x
+1 :
+    uint8x
+    ""it's"": charz } ,
+repeat int16  zchar , repeat char[] BodyLength , @leftPad
+// " ++ [27880; 37322]%N ++ runes_of_ascii "
+// 50% %s
+( )
+    @calculatedFrom( ""it's""
+    ) @rightPad
+    (  ' '
+)char[
+// " ++ [128512]%N ++ runes_of_ascii " emoji
+// a // b
+007 ] Logon @lengthOf(
+BodyLength ) , @tag(42
+)
+zchar[00 ] T @calculatedFrom(
+""" ++ [233]%N ++ runes_of_ascii "t" ++ [233]%N ++ runes_of_ascii """
+    ) , u8x {//x
+float{	packetx
+    `a\` , A	{
+    uint8 charz
+`a\`
+, _x matchKey
+`" ++ [28040; 24687; 31867; 22411]%N ++ runes_of_ascii "`
+//	t
+// packet A { u8 x, }
+,
+match trueish // trailing space 
+as options1 { ""{,}"" : A , """" :Z9_
+/// triple
+// trailing space 
+""1""	: // `tick` ""quote"" 'q'
+f32a , 1 :msg_type , ""a\\"" :
+    Packet ,  [ """ ++ [128512]%N ++ runes_of_ascii """
+    ,""a\\"" ] :
+    chars, } ,
+match  len
+as
+    BodyLength { 65535:
+    int
+//x
+// a // b
+,
+""\n"" : f32a,	[""packet"" ,
+00 ,
+""CRC32""
+// @lengthOf(
+// `tick` ""quote"" 'q'
+,
+""`tick`""
+//x
+// 50% %s
+, 0 ,
+    ""a	b"" ,
+    // 50% %s
+    """"  ,""1"" ] // " ++ [128512]%N ++ runes_of_ascii " emoji
+:
+repeatCount
+""1"" // @lengthOf(
+:// " ++ [27880; 37322]%N ++ runes_of_ascii "
+leftPad,""CRC32""
+:
+lengthOf // @lengthOf(
+,	[7 ,	""a	b"" ] : //
+repeatCount
+    , }, } ,	char[]
+    falsey @calculatedFrom(""" ++ [233]%N ++ runes_of_ascii "t" ++ [233]%N ++ runes_of_ascii """) `" ++ [28040; 24687; 31867; 22411]%N ++ runes_of_ascii "`, zchar[007 ] lengthOf @lengthOf(
+x_y_z )`say ""hi""`, } //	t
+, } ,
+    MetaDataX ,
 }
-packet Inner {
-    u8 a,
-    i16 b,
-    string c,
+")).
+Eval vm_compute in ("<<<M749>>>" ++ check (runes_of_ascii "// c
+root	packet pack{ repeat char[ 007]
+MetaDataX `say ""hi""`
+, char[] x_y_z @lengthOf(u128 ) , @tag( 10
+)
+match
+    falsey as string_ {  ""packet"" : u ,
+42
+: options1	, ""CRC32"" :
+trueish ,
+0123456789	:
+    Packet, """ ++ [128512]%N ++ runes_of_ascii """
+:trueish
+4294967296 :// a // b
+matchKey , }
+,
+} packet roots
+    {
+repeat f32a	{ // c
+match trueish // c
+as
+// a // b
+// trailing space 
+x
+/// triple
+// trailing space 
+{ // trailing space 
+[""{,}""
+, """ ++ [28040; 24687]%N ++ runes_of_ascii """ , 0  ,  ""abc"" , ""a\""b"" , 007
+] :Foo
+} /// triple
+,
+    } // c
+,  @lengthOf( Z9_ )@tag( 7 )chars uint8x `it's`
+, @calculatedFrom( ""a	b""
+) crc { match
+// c
+// " ++ [128512]%N ++ runes_of_ascii " emoji
+trueish as // packet A { u8 x, }
+metadata	{ 65535
+: string_ """ ++ [28040; 24687]%N ++ runes_of_ascii """ : Logon ,
+},
+    char[
+    007 // " ++ [27880; 37322]%N ++ runes_of_ascii "
+] falsey `100% of %d`
+    , u128
+@calculatedFrom(""{,}"" ) , }// c
+,match
+// packet A { u8 x, }
+// 50% %s
+a1 as As { """ ++ [233]%N ++ runes_of_ascii "t" ++ [233]%N ++ runes_of_ascii """ : asx 255:
+As  ""// no comment""
+:  string_
+//
+//x
+, 0123456789	:
+    Z9_, 65535 : // @lengthOf(
+A 4294967296:
+options1 , } , repeat
+MetaDataX , Logon, @calculatedFrom(
+""a\\""
+    )
+    // `tick` ""quote"" 'q'
+    options1,
+    @lengthOf(T	) roots, Foo
+    @lengthOf( Pad ) , // " ++ [27880; 37322]%N ++ runes_of_ascii "
+char[
+    65535 ] len , }root // " ++ [27880; 37322]%N ++ runes_of_ascii "
+packet	repeatCount{ // trailing space 
+@calculatedFrom(	""CRC32"" )
+@tag(7
+)  @calculatedFrom( ""a\\"" ) u128 { metadata @calculatedFrom( ""// no comment""
+)`two words`
+    , }
+    ,@rightPad( )
+    repeat
+    char[ 0123456789//
+] MetaDataX, @calculatedFrom( ""x y"" ) stringy
+    @lengthOf(metadata ) , Foo options1// @lengthOf(
+, @leftPad (	'\x00'
+// packet A { u8 x, }
+// " ++ [128512]%N ++ runes_of_ascii " emoji
+) @rightPad//	t
+( )
+i32 T
+    , zchar[007 ]
+a1	`" ++ [28040; 24687; 31867; 22411]%N ++ runes_of_ascii "` ,@lengthOf( uint8x )
+MetaDataX @calculatedFrom(""\" ++ [233]%N ++ runes_of_ascii """ ) `line1
+line2` ,
+@calculatedFrom( ""a	b""
+    /// triple
+    )string matchKey	`doc` , @lengthOf( As
+)// @lengthOf(
+@calculatedFrom( ""// no comment""	)@tag( 10 ) string Foo,
+    repeat lengthOf`// not a comment`
+    , }
+/// triple
+")).
+Eval vm_compute in ("<<<M1248>>>" ++ check (runes_of_ascii "  root
+    packet lengthOf { @calculatedFrom(""" ++ [128512]%N ++ runes_of_ascii """
+)
+//
+//x
+uint8 tag  `
+`
+, @calculatedFrom( ""packet""
+    )@tag( 0) @rightPad
+( '0'	) char[] pack	,
+}packet
+Header{@rightPad ('0'
+) char[] x_y_z , Header // `tick` ""quote"" 'q'
+{
+repeat zchar[ 00 ] leftPad , repeat f64
+float `
+` , string msg_type
+`doc`
+// packet A { u8 x, }
+//
+, repeat
+    char[]
+body  , }
+, @lengthOf( u8x
+    ) repeat char metadata `two words`
+    , @calculatedFrom(
+""packet""
+)trueish
+    /// triple
+    , } root  packet
+As // c
+{
+    repeat
+zchar[ 255 // " ++ [27880; 37322]%N ++ runes_of_ascii "
+] len// a // b
+`crlf
+line` , match
+    Foo
+    // " ++ [128512]%N ++ runes_of_ascii " emoji
+    as repeatCount{
+7  : _x ,
+    }
+    , @lengthOf(
+// `tick` ""quote"" 'q'
+/// triple
+float )@calculatedFrom( """ ++ [233]%N ++ runes_of_ascii "t" ++ [233]%N ++ runes_of_ascii """  ) u
+    {
+repeat msg_type { repeat
+Header
+, } , /// triple
+zchar[1 ]	Foo
+@lengthOf( BodyLength )
+`doc` ,} ,match u8x as  charz {
+// trailing space 
+/// triple
+255
+: x ,""it's""
+    :falsey
+//	t
+//	t
+""x y"":roots 1 // c
+: Foo , ""x y"" : zchar , // 50% %s
+""" ++ [128512]%N ++ runes_of_ascii """ // `tick` ""quote"" 'q'
+:
+    BodyLength , } , @rightPad
+( )u8x @calculatedFrom(""x y"" )`" ++ [28040; 24687; 31867; 22411]%N ++ runes_of_ascii "` , match packetx as repeatCount {
+    ""\n"" :
+    float , 1 : chars 007 : /// triple
+packetx,
+1
+: // packet A { u8 x, }
+i8i8,
+    } ,
+    @calculatedFrom(
+""""	) match
+// `tick` ""quote"" 'q'
+// @lengthOf(
+lengthOf as rootA { """":
+BodyLength, } , @tag(	4294967296) char[]
+    falsey	@lengthOf( trueish ) `" ++ [28040; 24687; 31867; 22411]%N ++ runes_of_ascii "` // 50% %s
+,
+} MetaData  T {
+    // a // b
+    msg_type // " ++ [27880; 37322]%N ++ runes_of_ascii "
+Logon`100% of %d` ,
+    o trueish `say ""hi""`,u32// trailing space 
+BodyLength
+`two words`
+    , f32 packetx `a\` , } // " ++ [128512]%N ++ runes_of_ascii " emoji")).
+Eval vm_compute in ("<<<M3956>>>" ++ check (runes_of_ascii "MetaData _x {
+    string Packet `// not a comment`,
+    o Logon,
+    packetx uint8x,
 }
-packet Inner2 {
-    u8 a2,
-    char[3] c2,
+
+root packet MetaDataX {
+    repeat char[255] x_y_z `doc`,
+    @calculatedFrom(""{,}"")
+    match asx as A {
+        4294967296 : Pad,
+        10 : a1,
+    },
+    zchar[3] asx `{ , }`,
+    match msg_type as i8i8 {
+        [
+            0, 1, 007, ""a\\"", ""\" ++ [233]%N ++ runes_of_ascii """,
+            65535
+        ] : calculatedFrom,
+        // 50% %s
+        007 : T,
+        255 : repeatCount,
+        [0123456789, ""it's""] : chars,
+    },
+    u128,
+    string A @lengthOf(Packet) `tab	here`,
+    char[0123456789] uint8x @lengthOf(x_y_z),
+    asx `" ++ [28040; 24687; 31867; 22411]%N ++ runes_of_ascii "`,
 }
-packet Logon {
-    u8 x,
-    string user,
-    repeat u16 codes,
+
+packet a1 {
+    i8 trueish,
 }
-packet Logout {
-    u16 reason,
-}
-packet Empty {
-}
-root packet Msg {
-    u8 su8,
-    uint8 luint8,
-    u16 su16,
-    uint16 luint16,
-    u32 su32,
-    uint32 luint32,
-    u64 su64,
-    uint64 luint64,
-    i8 si8,
-    int8 lint8,
-    i16 si16,
-    int16 lint16,
-    i32 si32,
-    int32 lint32,
-    i64 si64,
-    int64 lint64,
-    f32 sf32,
-    float32 lfloat32,
-    f64 sf64,
-    float64 lfloat64,
-    char[6] fsplain,
-    @leftPad('0') char[4] fs0,
-    @rightPad('0') char[5] fs1,
-    @leftPad(' ') char[6] fs2,
-    @rightPad(' ') char[7] fs3,
-    @leftPad('\x00') char[8] fs4,
-    @rightPad('\x00') char[9] fs5,
-    @leftPad() char[10] fs6,
-    @rightPad() char[11] fs7,
-    zchar[7] fz,
-    @leftPad('0') zchar[3] fzl0,
-    string s1 `doc`,
-    char[] s2,
-    Inner,
-    Sub {
-        u8 q,
-        string w,
-        Deep {
-            u16 z,
-            repeat i32 zs,
+
+packet matchKey {
+    match a1 as string_ {
+        10 : pack,
+    },
+    // @lengthOf(
+    // a // b
+    char[10] falsey `" ++ [233]%N ++ runes_of_ascii "`,
+    pack {
+        i8i8 {
+            repeat lengthOf {
+                //	t
+                tag asx,
+                match rootA as matchKey {
+                    ""CRC32"" : u,
+                    42 : lengthOf,
+                    // c
+                },
+                repeat uint64 packetx `
+                `,
+                zchar[0] options1 @lengthOf(Packet) `doc`,
+            },
         },
     },
-    repeat u8 ru8,
-    repeat u16 ru16,
-    repeat u32 ru32,
-    repeat u64 ru64,
-    repeat i8 ri8,
-    repeat i16 ri16,
-    repeat i32 ri32,
-    repeat i64 ri64,
-    repeat f32 rf32,
-    repeat f64 rf64,
-    repeat string rstr,
-    repeat char[] rstr2,
-    repeat char[3] rfs,
-    repeat zchar[3] rfz,
-    repeat Inner2,
-    repeat Grp {
-        u8 k,
-        char[2] v,
-    },
-    SeqNum,
-    SeqNum seq2,
-    repeat SeqNum seqs,
-    Symbol,
-    AltSymbol alt,
-    ZSym,
-    Note,
-    repeat Symbol syms,
-    Price px,
-    u16 MsgType,
-    u32 BodyLen @lengthOf(Body),
-    match MsgType as Body {
-        1 : Logon,
-        [2, 3] : Logout,
-        7 : Logon,
-        9 : Empty,
-    },
-    u32 Checksum @calculatedFrom(""CRC32""),
 }
-")).
-Eval vm_compute in ("<<<M2120>>>" ++ check (runes_of_ascii "packet
-BodyLength// packet A { u8 x, }
 
-{  leftPad
-lengthOf
-,float
-rootA  `it's`
-
-    ,
-
-    @leftPad (
-'0'
-
-    )
-
-    repeat
-BodyLength,  @rightPad  ( )i16 	 // a // b
-  	falsey
-
-    @lengthOf( 	 // a // b
-	i64_)	,// `tick` ""quote"" 'q'
-    repeat char[ 
-0123456789]uint8x,	repeat
-
-    // " ++ [27880; 37322]%N ++ runes_of_ascii "
-		f64
-i64_, a1
-
-    tag  `" ++ [233]%N ++ runes_of_ascii "`	,char[ 10 
-]
-packetx
-
-`say ""hi""`	,
-
-repeat tag
-	metadata
-	`tab	here`
-, }
-	    /// triple
-	  options
-    { crc= """"
-
-; }  packet  int
-
-    {
-    repeat
-
-zchar[ 
-255	] i64_`two words`	//x
-
-,string
-    tag @lengthOf(	// a // b
-
-Header
-),  char chars
-,
-
-    @lengthOf( crc 
-)match  asx
-	as Foo
-	{
-7 :
-BodyLength ,
-    ""packet"": 
-Z9_
-	,
-
-    007
-    :
-matchKey
-
-    , }
-
-    ,
-uint16
-
-metadata // a // b
-, 
-i64_ { repeat u8  msg_type
-,stringy 
-{  char[ 
-0123456789  ]// c
-
-  o
-@calculatedFrom(""\n""  ) `" ++ [233]%N ++ runes_of_ascii "`
-
-, } 
-        /// triple
-// packet A { u8 x, }
-
-, zchar[
-	00  ]  stringy
-    `line1
-line2`
-    ,}, 
-@leftPad  //
-      ('0')	match uint8x as
-
-    u128 {
-    [
-1  // a // b
-	  ,""abc"" ]: _x 
-""a	b"" :
-    Packet 
-// c
-3: _x//	t
-
-,
-    ""`tick`"": 
-packetx ,	""\n""
-:Header	,
-
-    } 
-,
-
-    x 
-// c
-    @calculatedFrom( 
-	/// triple
-  ""\n""
-
-    )
-,	zchar[
-    65535 ] Packet//x
-  ,  }MetaData
-Logon 
-{
-}  packet packetx
-{
-
-@calculatedFrom(
-""a\\""	)
-    match
-roots 
-as
-Foo
-
-    {
-    [
-
-""\n""
-
-    ,
-
-4294967296
-	]
-:	asx	,
-00  : o , ""{,}""	: Header,
-255
-
-:	packetx
-, [
-255, 4294967296
-
-    ]
-
-:
-MetaDataX ,
-}
-	,}
-")).
-Eval vm_compute in ("<<<M1592>>>" ++ check (runes_of_ascii "options	{
-    StringPrefixLenType
-	= u16
-    ;
-
-ArrayPrefixLenType=
-	u8
-
-    ;
-    FixedStringPadFromLeft
-=
-
-    true;FixedStringPadChar
-    =
-	' ' 
-;  } packet Quote
-
-    { int64 OrderId	,
-
-    char[]	Ref
-, 
-@leftPad  (
-    '0'
-) char[
-	5
-] price ,
-
-    }
-    packet  Heartbeat{zchar[ 3
-
-]
-
-    venue
-
-    ,
-string 
-Flags ,
-} packet
-    Trade { repeat	InTag787  {
-
-    i32 venue
-    ,	char[
-    5 ]
-sym
-,repeat InPx98
-
-    { 
-char[
-    11 ]Qty
-	,  Heartbeat ,
-
-char[]
-
-price  , u32
-x
-,
-float64
-
-count
-
-    , 
-repeat  Quote , }  ,  zchar[
-
-    7
-	]Note ,repeat	char[
-
-    1 ]
-Tail
-
-    ,} , 
-repeat char[ 2
-
-    ]
-seqNo,
-InTail55
-
-{
-
-repeat
-Quote
-
-,string
-msgKind ,
-InPx18
-    {
-
-char[]
-
-count	, 
-repeat	Quote  , uint16
-Qty
-
-    ,}
-    ,char[
-4 ]
-seqNo, repeat Heartbeat
-    ,
-repeat string	sym
-    ,  } ,
-	repeat
-
-    Quote
-    , Heartbeat  ,@leftPad ( 
-' ' ) char[
-
-    10
-    ] OrderId
-
-, }	root
-    packet  Fill 
-{
-
-    Heartbeat
-	, uint32
-
-count,
-	u8
-
-OrderId ,
-
-    match OrderId
-as
-Body{
-
-    96 :Quote ,
-195
-    :	Trade 
-,187
-
-: Heartbeat 
-,
-	}	,
-
-u32
-venue@calculatedFrom(  ""CR\
-C32"" ),}
-
-")).
-Eval vm_compute in ("<<<M192>>>" ++ check (runes_of_ascii "//x
-packet	u8x { @lengthOf(  As
-    )
-repeat char[ // c
-4294967296
-]
-    int `{ , }` ,repeat
+// `tick` ""quote"" 'q'
+//
+MetaData options1 {
+    string_ zchar,
+    Z9_ repeatCount `crlf
+    line`,
+    uint64 Logon,
+    uint64 a1,
+    string_ Foo,
+}")).
+Eval vm_compute in ("<<<M258>>>" ++ check (runes_of_ascii "root packet x_y_z{
+    //
+    T _x
+,@lengthOf(
+    uint8x
+)i32 Pad
     // " ++ [128512]%N ++ runes_of_ascii " emoji
-    int8 len
-`two words` , }root packet tag// a // b
-{} root packet rootA { o@calculatedFrom(""""
-    ) ,leftPad i64_ `it's`
-// a // b
-// packet A { u8 x, }
-, // " ++ [27880; 37322]%N ++ runes_of_ascii "
-@tag( 7 )
-    float ,	int32 x_y_z, repeat roots { zchar[ 10 ]
-    a1 ,
-    f32a
-    options1
-    `crlf
-line` , match _x
-    // @lengthOf(
-    as
-zchar {	1 : u8x ,""// no comment"" : float,	[4294967296, 10 ,""" ++ [233]%N ++ runes_of_ascii "t" ++ [233]%N ++ runes_of_ascii """ , """ ++ [28040; 24687]%N ++ runes_of_ascii """
-, 1 ] :u128 // trailing space 
+    `tab	here` , repeat
+char[ 0]o `crlf
+line`	,i8i8 {
+int// packet A { u8 x, }
+Header `
+`  ,u8 f32a
+,}
 ,
-    [ ""\" ++ [233]%N ++ runes_of_ascii """ ,//x
-42 // " ++ [128512]%N ++ runes_of_ascii " emoji
-] :	stringy
+@lengthOf(
+    crc)	match i8i8 as
+Logon{  0123456789  :
+float
+,}
+, int {
+    x `line1
+line2`,}
     ,
-[ 1 // " ++ [27880; 37322]%N ++ runes_of_ascii "
-,""\n""
-]:falsey
-    // a // b
-    , } ,  string  charz  @calculatedFrom( """" ) ,
-    }
-,	char[]	options1
-    `
-`
+    // " ++ [128512]%N ++ runes_of_ascii " emoji
+    repeat falsey{options1 x `doc`	, i8i8
+    `u8 x,`
+    ,
+    } ,
+    repeat // `tick` ""quote"" 'q'
+zchar[ 0123456789// a // b
+] a1	,}	options
+{ } options  { } root packet metadata
+    {
+    @calculatedFrom( ""a\\""
+    ) string_
+{ pack { match
+msg_type
+as	MetaDataX { ""// no comment""
+// " ++ [27880; 37322]%N ++ runes_of_ascii "
+// 50% %s
+:string_ , [ 65535
+    ]:	roots
 ,
-//	t
-/// triple
-u8x{ repeat msg_type	matchKey `u8 x,` , } , A
-@lengthOf( //x
-pack
-    ) //	t
-, i64
-stringy ,
-}
-packet i8i8{ i64_
-u128
-,@lengthOf( u8x//
-) repeat
-float64 f32a ,@calculatedFrom(
-    ""`tick`"" ) pack
-`" ++ [233]%N ++ runes_of_ascii "` ,
-uint64 Z9_ @calculatedFrom("""" ) `tab	here` , }
-")).
-Eval vm_compute in ("<<<M23>>>" ++ check (runes_of_ascii "root // c
-packet msg_type	{ repeat// packet A { u8 x, }
-A { repeat a1
-    { repeat  len// trailing space 
-, }
-    ,pack string_,	zchar[ 7 ] msg_type  @lengthOf(u
-) , } ,
-    repeat
-zchar[ // `tick` ""quote"" 'q'
-00] tag, u64 o@calculatedFrom(""a\\""
-    // trailing space 
-    ) ,  }
-    packet charz {@tag( 0
-) // c
-repeat
-    // a // b
-    u {
-char[007 ] T,}, repeatCount @calculatedFrom( ""\n""
-)
-,
-}packet
-trueish {
-@calculatedFrom( ""a\\"") @rightPad
-    ('0' ) // `tick` ""quote"" 'q'
-@lengthOf( BodyLength
-) string asx @lengthOf( A	),
+// packet A { u8 x, }
+// " ++ [128512]%N ++ runes_of_ascii " emoji
+10 :
+    metadata
+, 0 :_x ,
+    [
+0123456789
+, 007 ,  7 , 00 ,
+    4294967296 ] : trueish	, } // " ++ [128512]%N ++ runes_of_ascii " emoji
+, char[]
 //x
-/// triple
+// " ++ [128512]%N ++ runes_of_ascii " emoji
+u128
+    ,u64 u8x@lengthOf( string_ ) `doc`, }, // packet A { u8 x, }
+repeat
+    uint8
+    stringy  ,
+    // 50% %s
+    crc msg_type , } ,
+// `tick` ""quote"" 'q'
+// trailing space 
+@calculatedFrom( """ ++ [28040; 24687]%N ++ runes_of_ascii """	) int32 packetx`" ++ [233]%N ++ runes_of_ascii "` , Logon { match  uint8x as options1{""\" ++ [233]%N ++ runes_of_ascii """
+:
+    Z9_ ,
+// 50% %s
+// 50% %s
+} , } , } root packet // c
+options1 { @tag( 0 )  @calculatedFrom(
+""" ++ [233]%N ++ runes_of_ascii "t" ++ [233]%N ++ runes_of_ascii """ )
+@lengthOf(
+roots ) pack {i32
+    msg_type
+    , } ,	}")).
+Eval vm_compute in ("<<<M3483>>>" ++ check (runes_of_ascii "// top
+options
+    // c0
+{ // c1a
+  // c1b
+LittleEndian =
+    // c3
+true
+    // c4
+; // c5
+FixedStringPadFromLeft = // c7
+true // c8a
+  // c8b
+; // c9a
+  // c9b
+FixedStringPadChar = // c11a
+  // c11b
+'0' // c12
+;
+    // c13
+}
+    // c14
+packet // c15
+Reject { @rightPad
+    // c18
+( // c19
+'0'
+    // c20
+) char[ // c22
+1 // c23a
+  // c23b
+] // c24
+Tail // c25a
+  // c25b
+, // c26a
+  // c26b
+string // c27
+msgKind , InQty95
+    // c30
+{ // c31
+u8 // c32
+pad0 // c33
+, } // c35
+, // c36a
+  // c36b
+} packet // c38a
+  // c38b
+Order
+    // c39
+{ uint32 // c41
+Ref // c42a
+  // c42b
+, // c43a
+  // c43b
+repeat // c44
+i16
+    // c45
+seqNo ,
+    // c47
+@rightPad (
+    // c49
+'\x00' ) // c51
+char[
+    // c52
+5
+    // c53
+] Tail // c55a
+  // c55b
+, // c56a
+  // c56b
+Reject , // c58
+f64 // c59a
+  // c59b
+clOrdID , } packet
+    // c63
+Heartbeat // c64
+{ repeat // c66a
+  // c66b
+Order // c67a
+  // c67b
+, // c68
+zchar[ // c69
+8 // c70
+] // c71
+Tail
+    // c72
+, // c73a
+  // c73b
+} root packet Fill { // c78a
+  // c78b
+repeat // c79a
+  // c79b
+Order // c80a
+  // c80b
+, repeat // c82
+string
+    // c83
+lastPx // c84a
+  // c84b
+,
+    // c85
+} // c86
+")).
+Eval vm_compute in ("<<<M583>>>" ++ check (runes_of_ascii "packet lengthOf {
+@tag(3
+    )	asx `{ , }` , }	root	packet// 50% %s
+chars
+{@tag(  0123456789 ) match int
+    // a // b
+    as i8i8 { [
+    """ ++ [128512]%N ++ runes_of_ascii """,65535 ] :Pad [65535,
+    0123456789 , ""a\""b"" ,""a\""b"",
+    7 , ""abc""
+    , 65535 ,3 ] : repeatCount
+, } , }options
+// c
+// `tick` ""quote"" 'q'
+{  chars= '\x00' ;	}	packet  body {	i64 o ,
+@calculatedFrom( // " ++ [27880; 37322]%N ++ runes_of_ascii "
+"""" )
+@lengthOf(int)match metadata	as
+    charz {""`tick`""
+:
+lengthOf ,	1 :repeatCount , //	t
+[""abc""]
+    // trailing space 
+    :uint8x  ,
+    ""\n""
+:Pad, } //
+,
+    @rightPad('0' ) int64
+    msg_type
+    // " ++ [128512]%N ++ runes_of_ascii " emoji
+    @calculatedFrom( ""\" ++ [233]%N ++ runes_of_ascii """ ) ,
+@lengthOf( MetaDataX )
+    /// triple
+    zchar @calculatedFrom( ""a\\"" ) ,}
+    packet int  {
+@lengthOf( T  ) MetaDataX { options1// @lengthOf(
+{
+    /// triple
+    match
+As as roots
+{
+0 : asx , [
+10 ,"""" ,
+1 , 0123456789  ,
+""CRC32""  , 3 ,
+    ""a\\""] //	t
+: int, """" : leftPad ,
+[
+1
+    ,
+1 ] : int ,  },
+uint8x float
+    // @lengthOf(
+    , }, int16
+    Logon `" ++ [28040; 24687; 31867; 22411]%N ++ runes_of_ascii "` , repeat pack
+    {repeat
+i16 packetx``, rootA
+    string_ , }
+,zchar[ 0 ]
+Header`say ""hi""` ,} ,
+    }
+")).
+Eval vm_compute in ("<<<M3768>>>" ++ check (runes_of_ascii "
+
+  packet
+body
+
+{  @calculatedFrom( ""x y""
+)
+	charz
+    `100% of %d`
+    ,  @tag(
+    007  // " ++ [128512]%N ++ runes_of_ascii " emoji
+)repeat packetx
+
+    //x
+    // " ++ [128512]%N ++ runes_of_ascii " emoji
+    ,	@calculatedFrom(
+	""\" ++ [233]%N ++ runes_of_ascii """
+
+)	int8	charz@calculatedFrom(
+	""`tick`""  )
+,
+	@lengthOf(
+	trueish )
+
+@rightPad
+( ' ' ) repeat
+	u lengthOf `// not a comment` // 50% %s
+    ,
+@rightPad
+
+( '0'  )
 @rightPad (
 ' '
-) match pack
-    // @lengthOf(
-    as leftPad
-{  [
-1 ]// a // b
-:
-body , [ ""a	b""]
-:msg_type , // `tick` ""quote"" 'q'
-10 :calculatedFrom ,7 : packetx,
-""" ++ [233]%N ++ runes_of_ascii "t" ++ [233]%N ++ runes_of_ascii """
-: roots ,	}
-    ,@calculatedFrom(""1""
-    )  repeat roots
-    // c
-    u8x
-    ,}
-")).
-Eval vm_compute in ("<<<M27>>>" ++ check (runes_of_ascii "root packet Packet{ char[]
-    msg_type @calculatedFrom(""a\\"" ) , repeat
-    u16 a1
-`say ""hi""`
-,f32a
-stringy
-`u8 x,` ,
-    uint16 int	, @calculatedFrom( ""// no comment""
-) repeat
-// a // b
-// c
-u8 T, zchar[
+
+)
+	@tag(  4294967296 ) x  trueish
+,
+charz	@lengthOf( _x  )
+	,
+
+@calculatedFrom(  
+      // packet A { u8 x, }
+      ""// no comment"") 
+@rightPad( )
+@calculatedFrom(""\" ++ [233]%N ++ runes_of_ascii """ //	t
+	  )match
+x  as chars
+{ 10
+: 
+    // `tick` ""quote"" 'q'
+	  u128  ,  007 
+	//x
+  	// `tick` ""quote"" 'q'
+  :
+
+    chars , ""it's""
+
+: 
+u128 ,
+255
+
+    :
+    trueish, }
+
+,
+    match falsey  
+  // @lengthOf(
+  	// packet A { u8 x, }
+    	as
+
+roots
+    {
+
+""// no comment""	: lengthOf
+	,""" ++ [233]%N ++ runes_of_ascii "t" ++ [233]%N ++ runes_of_ascii """
+: len
+,  ""1"" 
+// 50% %s
+  : i8i8 
+,
+	[0 , """ ++ [28040; 24687]%N ++ runes_of_ascii """ ,
+255] : 
+
+// @lengthOf(
 // packet A { u8 x, }
+
+  uint8x 
+// a // b
+	  // packet A { u8 x, }
+,10 
+:  T
+	""x y""
+
+    : 
+u128 ,
+}
+
+    ,}
+
+")).
+Eval vm_compute in ("<<<M535>>>" ++ check (runes_of_ascii "  MetaData chars {
+char[ 10 ]
+falsey // `tick` ""quote"" 'q'
+`
+` , }
+packet matchKey { @lengthOf( packetx
+    ) char[
+    65535 ]
+// packet A { u8 x, }
+// c
+pack, repeat
+    As{ //
+zchar[ 10 ]Logon @calculatedFrom( ""a	b"" ) , //
+}	, // @lengthOf(
+u64 roots , }packet Header{u8x // packet A { u8 x, }
+@lengthOf(
+    f32a )
+    , msg_type { u8 Z9_ , repeat chars { repeat	u128	{ repeat uint8
+x ,u128 ,
+    int32 asx , char pack
+`" ++ [233]%N ++ runes_of_ascii "`
+, /// triple
+} , } , match
+    options1 as repeatCount{65535 : tag
+    ,42 : stringy , } , } , repeat zchar[42 ]
+// packet A { u8 x, }
+//	t
+metadata  `100% of %d`, // c
+BodyLength @lengthOf( charz ) ,
+// c
+// a // b
+u32 int @lengthOf(
+i64_
+//	t
+// a // b
+)`crlf
+line`  , repeat u32 a1	`tab	here`
+, } packet
+    metadata
+    {
+repeat
+// " ++ [128512]%N ++ runes_of_ascii " emoji
+// packet A { u8 x, }
+options1{// 50% %s
+string_
+`u8 x,`,char[] // " ++ [27880; 37322]%N ++ runes_of_ascii "
+i8i8,
+// trailing space 
+//x
+char[]Logon@calculatedFrom( ""1"" ) , a1 MetaDataX`u8 x,` , // " ++ [128512]%N ++ runes_of_ascii " emoji
+} ,
+}
+")).
+Eval vm_compute in ("<<<M920>>>" ++ check (runes_of_ascii "
+root packet len { @calculatedFrom( ""a\\"")  @tag( 7) @lengthOf( int ) u
+@calculatedFrom(
+    """" ) ,}
+packet stringy
+    {// a // b
+repeat
+    string zchar ``
+, @leftPad
+    (
+' ' )
+    i8i8 //
+{crc i64_ , } , charz @calculatedFrom( ""1"" )`" ++ [28040; 24687; 31867; 22411]%N ++ runes_of_ascii "`	, @tag( 0123456789) msg_type `it's` ,} packet T {options1
+    , match rootA
+//
+// @lengthOf(
+as i64_ { 42	:	repeatCount
+// " ++ [128512]%N ++ runes_of_ascii " emoji
+//	t
+,
+0123456789 :  len, }
+    ,
+repeat// packet A { u8 x, }
+o asx
+`u8 x,` , repeat i8i8
+`" ++ [28040; 24687; 31867; 22411]%N ++ runes_of_ascii "`, //
+MetaDataX `doc`
+,	packetx {
+    f32 Logon @calculatedFrom( ""`tick`"" )`it's` , u lengthOf
+`a\`, }
+    , @lengthOf( a1 )
+chars , //	t
+char[] u128@lengthOf(a1
+)`" ++ [28040; 24687; 31867; 22411]%N ++ runes_of_ascii "`,match metadata as zchar { //x
+""1"" : lengthOf, 1	: _x, [ 7
+    , // @lengthOf(
+""" ++ [28040; 24687]%N ++ runes_of_ascii """ ,""" ++ [128512]%N ++ runes_of_ascii """ ,
+1, 4294967296
+    ] :
+// packet A { u8 x, }
+//x
+Packet , [
+// packet A { u8 x, }
+// a // b
+""a\\""	]:As
+    } ,
+char[65535
+// trailing space 
+// trailing space 
+] uint8x ,	}
+")).
+Eval vm_compute in ("<<<M3882>>>" ++ check (runes_of_ascii "packet BodyLength {
+    Pad {
+        Foo i64_ `say ""hi""`,
+        Header {
+            // a // b
+            zchar[10] o,
+        },
+        repeat zchar[007] crc,
+        u16 i64_ @calculatedFrom(""1"") `a\`,
+    },
+}
+
+packet uint8x {
+    @calculatedFrom(""a	b"")
+    char[0123456789] x,
+    i16 repeatCount @calculatedFrom(""x y""),
+    repeat u32 roots,
+    @lengthOf(string_)
+    @lengthOf(len)
+    @rightPad('\x00')
+    repeat x_y_z {
+        repeat BodyLength,
+        repeatCount @lengthOf(charz) `line1
+                line2`,
+    },
+    string u128 @calculatedFrom(""// no comment"") `doc`,
+    char[] rootA `// not a comment`,
+}
+
+packet T {
+    rootA @lengthOf(tag) `{ , }`,
+    repeatCount x_y_z `it's`,
+    @tag(10)
+    o options1,// " ++ [27880; 37322]%N ++ runes_of_ascii "
+    match zchar as Pad {
+        """ ++ [233]%N ++ runes_of_ascii "t" ++ [233]%N ++ runes_of_ascii """ : trueish,
+        1 : x_y_z,
+        ""packet"" : float,
+        255 : tag,
+    },
+}")).
+Eval vm_compute in ("<<<M837>>>" ++ check (runes_of_ascii "packet matchKey{
+float64
+Packet	`u8 x,`,
+@lengthOf(
+T )@lengthOf(chars // " ++ [27880; 37322]%N ++ runes_of_ascii "
+)
+    // `tick` ""quote"" 'q'
+    @rightPad (
+    ' '
+    )string_ falsey ,
+    // 50% %s
+    @rightPad
+    ( ) repeat charz {
+    repeat
+    //
+    u16 len// " ++ [27880; 37322]%N ++ runes_of_ascii "
+, i64 falsey// " ++ [128512]%N ++ runes_of_ascii " emoji
+@calculatedFrom( // a // b
+""{,}"" )
+    // " ++ [128512]%N ++ runes_of_ascii " emoji
+    , repeat // c
+char[ 7 ] x_y_z
+    `a\`
+, len
+    @lengthOf(
+u) , }
+, char	o //
+`100% of %d` , uint8 chars @calculatedFrom(
+// " ++ [27880; 37322]%N ++ runes_of_ascii "
+// a // b
+""\n"" ) , }root
+packet leftPad
+{ @rightPad	( ) u64 pack @calculatedFrom(
+""packet"" )
+    ,float32 BodyLength
+    ,
+    int32 packetx// packet A { u8 x, }
+`it's` ,
+    } packet float
+    { stringy msg_type
+    , Z9_	@calculatedFrom( ""1"" )
+`u8 x,` , @lengthOf( Header
+// @lengthOf(
+// packet A { u8 x, }
+)
+    // a // b
+    trueish
+    @calculatedFrom( ""x y"" ), }")).
+Eval vm_compute in ("<<<M1336>>>" ++ check (runes_of_ascii "packet	charz{
+    // a // b
+    @rightPad( )
+    @tag(007
+)
+@tag( 255)
+repeat
+_x {
+crc @lengthOf( u)
+    `doc`	,u16	x , }
+    , match
+    u128 as // " ++ [128512]%N ++ runes_of_ascii " emoji
+As // trailing space 
+{  10
+:
+x_y_z
+,	} , zchar[ 007
+]int @calculatedFrom( """ ++ [233]%N ++ runes_of_ascii "t" ++ [233]%N ++ runes_of_ascii """ ) ,
+match tag as//
+float { // c
+[""" ++ [28040; 24687]%N ++ runes_of_ascii """
+    // " ++ [27880; 37322]%N ++ runes_of_ascii "
+    ,
+""" ++ [28040; 24687]%N ++ runes_of_ascii """] : leftPad , """ ++ [128512]%N ++ runes_of_ascii """ : repeatCount ,
+    10 : stringy , // " ++ [27880; 37322]%N ++ runes_of_ascii "
+""\n"" :msg_type , 1
+    : float , [ ""{,}"" ]  : i64_,} ,
+    @lengthOf( u128 ) @tag( 007  )  match f32a as string_
+    {
+    // `tick` ""quote"" 'q'
+    0:	i8i8 ,} ,
+uint64 falsey ,
+} MetaData Foo
+{u16 T , crc tag
+    , A falsey
+    `{ , }` // `tick` ""quote"" 'q'
+,
+}	packet
+    float {
+}
+    MetaData
+    rootA{ _x x,char[ 10 //x
+]
+options1 , pack x_y_z
+//x
+// trailing space 
+,
+    char[] u128, uint32 Pad
+//x
+//x
+,
+}
+")).
+Eval vm_compute in ("<<<M3879>>>" ++ check (runes_of_ascii "  packet  crc{  match string_
+
+as
+
+Z9_ { 
+[ 
+
+/// triple
+""" ++ [233]%N ++ runes_of_ascii "t" ++ [233]%N ++ runes_of_ascii """
+
+]:tag,
+4294967296  :  // a // b
+    float  65535 : i64_
+,
+    }
+	, @leftPad	(
+    '\x00')@calculatedFrom(""{,}""
+) 
+match
+
+MetaDataX as
+	leftPad {
+0
+:lengthOf,	} , 
+BodyLength {match calculatedFrom
+	as
+	len { // 50% %s
+    	10:
+	Packet 
+,}
+
+    , 
+repeat  zchar[ 	 // @lengthOf(
+		3
+	]matchKey
+	`crlf
+line`
+	,} , 
+      // 50% %s
+  //x
+      match u8x
+as Packet 
+{ 4294967296
+
+:trueish
+    ,} 
+
+    // `tick` ""quote"" 'q'
+	,	match  calculatedFrom  as  a1	{
+
+""\" ++ [233]%N ++ runes_of_ascii """  : 
+tag  /// triple
+  ,[ 65535	,  //	t
+
+""a\""b""
+    ,  // " ++ [128512]%N ++ runes_of_ascii " emoji
+		3 ] :
+
+asx
+
+, """ ++ [233]%N ++ runes_of_ascii "t" ++ [233]%N ++ runes_of_ascii """
+:
+
+    uint8x 
+} ,
+
+@calculatedFrom(
+""x y"" )
+repeat	uint64 roots
+
+    `line1
+line2`//	t
+  ,  trueish
+
+    uint8x
+
+    , }
+")).
+Eval vm_compute in ("<<<M569>>>" ++ check (runes_of_ascii "
+options{ //	t
+roots =
+// c
 // " ++ [27880; 37322]%N ++ runes_of_ascii "
 65535
+; Packet=
+""abc"" options1 =
+'\x00'
+    ;}
+    packet pack {
+    @tag(
 //x
+// trailing space 
+255  )@calculatedFrom( ""\" ++ [233]%N ++ runes_of_ascii """
+// a // b
 //
-]  T , // `tick` ""quote"" 'q'
-repeat chars	{ char[] tag //x
-`" ++ [233]%N ++ runes_of_ascii "`,int64 A	@calculatedFrom(	""\n"" )`// not a comment`
-, match trueish as i8i8 {[ ""a\""b""]	: MetaDataX, } , len {zchar[ 65535 ]o
-    @lengthOf( body  ) `a\`//
-, string options1`two words`
-    , tag
-    // `tick` ""quote"" 'q'
-    { T `{ , }`
-    , charz
-    ,i8 // trailing space 
-uint8x ,} ,char[]packetx// @lengthOf(
-@lengthOf(// c
-roots ) ,} ,
-    }
-,//
-string  x, } // trailing space ")).
-Eval vm_compute in ("<<<M312>>>" ++ check (runes_of_ascii "packet BodyLength // " ++ [27880; 37322]%N ++ runes_of_ascii "
-{ char[ 255 // " ++ [27880; 37322]%N ++ runes_of_ascii "
-]	_x, match body as repeatCount
-    { ""{,}"" :
-len }
-    , char[
-    0] Logon @calculatedFrom(	""{,}"" ) ,
-    // a // b
-    @rightPad() i64_//x
-@calculatedFrom( ""it's"" )
-    `crlf
-line` , } packet
-Header {
-match As as
-    chars
-{
-7: packetx , [ ""it's""  ]: u128
-,
-    [
-    4294967296 , ""{,}"" ] : f32a ,} ,
-    }packet asx { @calculatedFrom( ""1""
-)
-    a1
-// @lengthOf(
-//
-,
-//
-//x
-match x_y_z as  crc /// triple
-{
-// `tick` ""quote"" 'q'
-// `tick` ""quote"" 'q'
-""CRC32"" : As
-, 7
-:o , //x
-} ,match msg_type as Packet {""" ++ [233]%N ++ runes_of_ascii "t" ++ [233]%N ++ runes_of_ascii """ : metadata }, repeat u8
-i64_ ,// a // b
-}")).
-Eval vm_compute in ("<<<M1645>>>" ++ check (runes_of_ascii "packet int {
-    @calculatedFrom(""" ++ [28040; 24687]%N ++ runes_of_ascii """)
-    @tag(007)
-    options1 @calculatedFrom(""CRC32"") `tab	here`,
-    @lengthOf(As)
-    x x_y_z,
-    repeat x {
-        i64 Z9_,
-        zchar[007] body @lengthOf(uint8x),
-        f64 metadata @calculatedFrom(""`tick`"") `tab	here`,
-    },
-}
-
-packet msg_type {
-    repeat zchar[255] A,
-    int64 f32a,// " ++ [128512]%N ++ runes_of_ascii " emoji
-    Pad @lengthOf(falsey),
-    match falsey as x_y_z {
-        7 : len,
-    },
-    string uint8x `a\`,
-    string rootA @lengthOf(int),
-}
-
-root packet pack {
-    crc i64_,
-}")).
-Eval vm_compute in ("<<<M1595>>>" ++ check (runes_of_ascii "// top
-packet MDSnapshotZZ {
-    // c2
-    u8 a,// c5
-}
-
-packet OrderACK {
-    // c9
-    u16 b,
-}
-
-// c13
-packet HTTPServerInfo {
-    // c16a
-    // c16b
-    string s,
-}// c20
-
-root packet FIXMsg {
-    // c24a
-    // c24b
-    u8 KType,// c27
-    MDSnapshotZZ,
-    repeat OrderACK,// c32a
-    // c32b
-    match KType as Body {
-        // c37a
-        // c37b
-        1 : HTTPServerInfo,
-        2 : OrderACK,
-        // c45
-    },
-    // c47
-}// c48")).
-Eval vm_compute in ("<<<M207>>>" ++ check (runes_of_ascii "MetaData
-T { Foo  lengthOf , string
-    //x
-    packetx
-    `// not a comment` , zchar[
-    //	t
-    0] metadata
-//x
-// `tick` ""quote"" 'q'
-`crlf
-line` ,
-x string_
-`line1
-line2` , } packet repeatCount {	char[ // `tick` ""quote"" 'q'
+) u {	repeat MetaDataX
+_x , char[ // @lengthOf(
 255 ]
-A @calculatedFrom(""a\\"" )
-,float32
-    BodyLength @lengthOf(	_x )
-// c
+int @calculatedFrom( ""\n""
+)
+// a // b
 //
-`doc` , char[] trueish
-    // " ++ [128512]%N ++ runes_of_ascii " emoji
-    @calculatedFrom( ""packet"")
-    ,}
-")).
-Eval vm_compute in ("<<<M1569>>>" ++ check (runes_of_ascii "options
-    { FixedStringPadFromLeft
-	= true ;
-FixedStringPadChar
-	=
-' ';
-}packet	Reject
-{}  packet
-    Fill
-{
-    repeat
-i16 Tail
 ,
-    }
-	root packet 
-Trade
+repeat
+    i8 leftPad , match roots as tag { 1	:BodyLength 255 :	asx , ""a\""b""
+:matchKey, } , } ,	@rightPad( '\x00' ) u8x u128// `tick` ""quote"" 'q'
+`it's` //	t
+, @leftPad (
+'0' )
+//
+// " ++ [27880; 37322]%N ++ runes_of_ascii "
+charz{ i8 roots
+@lengthOf(MetaDataX),  _x float `doc` , x_y_z , } , repeat  string	MetaDataX `" ++ [28040; 24687; 31867; 22411]%N ++ runes_of_ascii "` // " ++ [128512]%N ++ runes_of_ascii " emoji
+, @leftPad ( ' ') @tag(	42 )string// " ++ [27880; 37322]%N ++ runes_of_ascii "
+BodyLength
+@lengthOf(
+i8i8 ) ,	BodyLength _x`100% of %d` , } packet rootA { @tag(
+3 ) u8 x , // a // b
+}
+")).
+Eval vm_compute in ("<<<M869>>>" ++ check (runes_of_ascii "
+packet T {
+match matchKey as
+u8x { 7 :matchKey [ //
+""""
+] /// triple
+: Header , [ // trailing space 
+1  ,
+""packet""
+] :
+f32a ""\" ++ [233]%N ++ runes_of_ascii """	:
+calculatedFrom
+    ,
+255 : //	t
+metadata
+}
+    ,
+    @lengthOf(i8i8) @lengthOf(float	)
+@calculatedFrom(""a\\"" )  pack
+    // `tick` ""quote"" 'q'
+    @lengthOf(
+packetx) `crlf
+line`
+,
+match rootA
+// " ++ [27880; 37322]%N ++ runes_of_ascii "
+// packet A { u8 x, }
+as Z9_
+// " ++ [27880; 37322]%N ++ runes_of_ascii "
+// a // b
+{ [""CRC32"" ] : o // @lengthOf(
+, ""it's"" :stringy
+    , 3
+: a1 ,""it's""
+:// @lengthOf(
+u8x
+    }, char
+    falsey
+,f32
+i64_
+// packet A { u8 x, }
+// a // b
+,@leftPad ( //x
+' ' )
+    i8i8
+{trueish @calculatedFrom( """ ++ [128512]%N ++ runes_of_ascii """	) , }
+    , @lengthOf(	As )
+    a1 leftPad,
+// `tick` ""quote"" 'q'
+// `tick` ""quote"" 'q'
+}")).
+Eval vm_compute in ("<<<M1394>>>" ++ check (runes_of_ascii "packet packetx { // `tick` ""quote"" 'q'
+match Pad
+as roots
 {
-	float64	Ref , Fill ,
-	u8 Note	,u16 count	@lengthOf(
-Body) ,	match 
-Note as
-Body{
+10 :body , 0 :
+Z9_, 42 :Logon
+    , 00
+: tag
+    ,
+    """ ++ [28040; 24687]%N ++ runes_of_ascii """
+    : pack  ,
+}, @calculatedFrom(
+""{,}"") i64 Z9_ ,string u	@lengthOf(
+metadata ) , @tag( 0123456789 ) BodyLength u `{ , }`,  @rightPad (
+    // a // b
+    ) msg_type	@lengthOf(
+    //x
+    T
+) ,
+    // @lengthOf(
+    }
+/// triple
+/// triple
+packet Logon { @rightPad // packet A { u8 x, }
+( '\x00') repeat
+// " ++ [27880; 37322]%N ++ runes_of_ascii "
+/// triple
+int16	metadata
+, @tag( 42 ) chars
+Pad ,
+@calculatedFrom(
+    """ ++ [233]%N ++ runes_of_ascii "t" ++ [233]%N ++ runes_of_ascii """)repeat
+    //
+    A Pad	`line1
+line2`,
+@lengthOf( T  ) char[] Pad ,
+//	t
+// `tick` ""quote"" 'q'
+len @lengthOf( int
+    ), string
+Foo ,} options { }
+")).
+Eval vm_compute in ("<<<M3883>>>" ++ check (runes_of_ascii "// packet A { u8 x, }
+packet lengthOf {
+    @lengthOf(matchKey)
+    @leftPad('0')
+    @lengthOf(x_y_z)
+    uint32 packetx @calculatedFrom(""x y"") `{ , }`,//
+    u16 i64_ @calculatedFrom(""a\""b"") `100% of %d`,
+}
+
+packet u8x {
+    repeat repeatCount `crlf
+    line`,
+    match T as float {
+        [
+            42, 65535, 65535, 255, 3,
+            """", ""x y""
+        ] : trueish,
+        4294967296 : Z9_,
+        [
+            65535, 3, 0, 3, 255,
+            3
+        ] : msg_type,
+        //	t
+        4294967296 : i8i8,
+        //	t
+        [42, 0123456789, 10] : metadata,
+    },
+    zchar[65535] asx @lengthOf(Packet),
+}
+
+packet Header {
+}")).
+Eval vm_compute in ("<<<M1372>>>" ++ check (runes_of_ascii "// packet A { u8 x, }
+packet	lengthOf
+{@lengthOf(matchKey ) @leftPad ( '0'
+)@lengthOf( x_y_z)	uint32 packetx@calculatedFrom(  ""x y""
+) `{ , }`
+, //
+u16 i64_ @calculatedFrom( ""a\""b""	)`100% of %d`, }
+    packet u8x { repeat repeatCount `crlf
+line` , match T
+//
+// packet A { u8 x, }
+as float {
+[ 42,//	t
+65535 ,
+65535
+    // " ++ [128512]%N ++ runes_of_ascii " emoji
+    , 255 ,
+3,"""" ,
+""x y""
+]
+: trueish ,4294967296 : Z9_ ,	[ 65535
+,	3 , 0	, 3 ,
+    255 , 3  ] :
+msg_type
+, //	t
+4294967296 : i8i8  , //	t
+[ 42 ,
+    /// triple
+    0123456789, 10/// triple
+]
+:metadata , }
+    , zchar[ 65535	] asx @lengthOf(
+Packet )  , } packet // " ++ [27880; 37322]%N ++ runes_of_ascii "
+Header {}
+
+")).
+Eval vm_compute in ("<<<M1139>>>" ++ check (runes_of_ascii "options { body // packet A { u8 x, }
+=
+    ""\" ++ [233]%N ++ runes_of_ascii """
+; }
+options{chars =  ""x y"" } packet BodyLength	{ chars@calculatedFrom( //	t
+""" ++ [233]%N ++ runes_of_ascii "t" ++ [233]%N ++ runes_of_ascii """  )
+`100% of %d`
+    , @calculatedFrom( ""a	b"" // " ++ [128512]%N ++ runes_of_ascii " emoji
+) int32
+    msg_type , } packet
+    metadata
+{
+    @leftPad(
+    ) u8 u128 ,u , //	t
+trueish , stringy	trueish//	t
+,@lengthOf(
+Pad) pack
+{
+char[ 10
+    ] charz `u8 x,` , }, repeat char leftPad , @rightPad ( '0' ) i64
+    int@lengthOf( pack)
+, char[] charz , // @lengthOf(
+match _x // c
+as pack { //x
+3 :	body	,
+[ ""// no comment"" ,
+""a\""b""]
+:
+uint8x , 3 :lengthOf , } , matchKey
+    // 50% %s
+    , }
+")).
+Eval vm_compute in ("<<<M270>>>" ++ check (runes_of_ascii "options { Header
+=
+    ""a\\"" }packet x{ } packet repeatCount{zchar[ 00 ] asx,
+@calculatedFrom( ""// no comment"" ) match body as Logon
+{ ""abc""
+:	chars
+42	: A
+,
+""// no comment"":
+crc , [ """"
+]: f32a , 4294967296 : falsey ""x y""	: u8x },	@rightPad(
+    ' ' ) u32
+stringy @lengthOf(	lengthOf) ,  Foo `say ""hi""`// packet A { u8 x, }
+,
+crc `100% of %d` , @leftPad( '\x00' )
+u8x o , zchar[
+255	]
+tag `u8 x,`	,} packet f32a { }
+// @lengthOf(
+// @lengthOf(
+root packet
+// packet A { u8 x, }
+// 50% %s
+msg_type {
+@calculatedFrom(  ""`tick`""
+    )char[]crc
+, int	options1
+, //
+asx ,}
+")).
+Eval vm_compute in ("<<<M438>>>" ++ check (runes_of_ascii "
+MetaData  roots{ } packet chars{
+@tag( 255 ) char[ 1// 50% %s
+]Packet ,
+@lengthOf(calculatedFrom
+    /// triple
+    )
+Packet{ uint32 len, uint64
+uint8x
+    @lengthOf(stringy ) , } , x@lengthOf(trueish)
+`100% of %d`  , }packet len { zchar[3
+    // 50% %s
+    ] pack `crlf
+line`, float
+    @lengthOf(//
+calculatedFrom
+//	t
+// a // b
+) ,char[ 3	]rootA @lengthOf(body )
+    , @calculatedFrom(""{,}"")
+// c
+// c
+match _x as Header // c
+{  00 : _x , [ ""packet""
+,10, 0123456789 ,	255 ]: a1 ,	42  : falsey
+,007
+    : msg_type },
+}
+// packet A { u8 x, }
+")).
+Eval vm_compute in ("<<<M338>>>" ++ check (runes_of_ascii "
+options	{ o = ""packet"" body =true tag =
+// `tick` ""quote"" 'q'
+// packet A { u8 x, }
+char[7]
+; rootA = """"  Foo =
+    string ;}
+    MetaData zchar {
+    int16 falsey `// not a comment` , //	t
+char[]
+    u128 // a // b
+, f64 leftPad `
+`	, }
+packet  metadata
+{ string repeatCount
+    , o { match leftPad	as lengthOf {
+[0123456789,
+""1"" ] : x_y_z ,[
+""" ++ [128512]%N ++ runes_of_ascii """ ] : i8i8
+,
 [
-98	, 101 ]: 
-Fill  ,	34 :
+    /// triple
+    ""a\""b""	,
+""a	b""  ] :
+Foo , [ ""\" ++ [233]%N ++ runes_of_ascii """] :Pad
+    ,
+    [	""a	b"", 42 // 50% %s
+, """ ++ [233]%N ++ runes_of_ascii "t" ++ [233]%N ++ runes_of_ascii """	,3 , """ ++ [28040; 24687]%N ++ runes_of_ascii """ , 00 , 7
+] : packetx,42 : falsey ,}
+    ,	} , }")).
+Eval vm_compute in ("<<<M509>>>" ++ check (runes_of_ascii "// " ++ [27880; 37322]%N ++ runes_of_ascii "
+packet //x
+float
+    { }options
+{ Logon =
+    """ ++ [233]%N ++ runes_of_ascii "t" ++ [233]%N ++ runes_of_ascii """
+    ; body = ""abc"" ; falsey= ""{,}""
+    /// triple
+    } packet matchKey { packetx@lengthOf(i64_ ) , @calculatedFrom( ""\" ++ [233]%N ++ runes_of_ascii """ )
+u64
+//x
+// c
+MetaDataX @lengthOf(
+    Foo
+)
+    , repeat pack
+{	u
+    //	t
+    msg_type , } , match u as
+    calculatedFrom {""1"": MetaDataX , """ ++ [233]%N ++ runes_of_ascii "t" ++ [233]%N ++ runes_of_ascii """
+    :len	,} ,
+@leftPad(
+'\x00' ) @calculatedFrom(""\n"" // trailing space 
+) falsey
+    ,
+    @lengthOf(
+charz ) i64 crc`
+`	,// @lengthOf(
+} packet charz
+    { }
 
-Reject
+")).
+Eval vm_compute in ("<<<M231>>>" ++ check (runes_of_ascii "packet metadata
+    { } MetaData trueish
+// 50% %s
+//
+{ metadata Logon
+    `a\` , } packet
+rootA {	@tag( 255
+)
+len
+    @calculatedFrom( /// triple
+""a	b"") ,	repeat f32a ,
+    repeat
+    body
+// " ++ [128512]%N ++ runes_of_ascii " emoji
+// `tick` ""quote"" 'q'
+{ char[]repeatCount ,
+}
+    , string u@lengthOf(
+    _x
+) ,
+@tag(255 ) Packet @lengthOf(// c
+packetx)	,
+metadata
+@lengthOf(
+    float ) , MetaDataX @calculatedFrom(""" ++ [233]%N ++ runes_of_ascii "t" ++ [233]%N ++ runes_of_ascii """
+    )
+    ,
+repeat
+    zchar[0 ] u8x , repeat float64 calculatedFrom
+    ,	}
+")).
+Eval vm_compute in ("<<<M437>>>" ++ check (runes_of_ascii "packet
+    u128 {} packet
+    Foo
+{packetx , }
+    packet
+    float
+    { @tag( 1 ) // " ++ [128512]%N ++ runes_of_ascii " emoji
+@lengthOf(
+Pad )
+// a // b
+// a // b
+match x_y_z as metadata
+    {
+    // a // b
+    0: u8x 42 :	len
+, ""a\\"" : Packet , [
+""a	b"" , 0123456789 ,""\n"" , 65535] :
+    asx
+    ,
+[
+0 ]
+:_x , 255 :
+    _x	, }
+,} // trailing space 
+packet pack{ @lengthOf(i64_
+)
+    repeat
+    zchar[ 1] Foo
+    , repeat
+// trailing space 
+// trailing space 
+char[] u8x
+    , }
+")).
+Eval vm_compute in ("<<<M756>>>" ++ check (runes_of_ascii "packet stringy
+{repeat
+u
+// c
+//x
+`tab	here` , crc,
+    repeat a1 { x trueish
+    `it's`
+, zchar[
+1]
+roots @lengthOf( lengthOf) ,int16 f32a//x
+, uint32
+    // " ++ [128512]%N ++ runes_of_ascii " emoji
+    a1
+@lengthOf( u ) , } , match
+    // " ++ [128512]%N ++ runes_of_ascii " emoji
+    Logon as
+//	t
+/// triple
+u128 { [ ""x y""]
+    : uint8x ""// no comment"" : pack , ""1"":
+//	t
+// `tick` ""quote"" 'q'
+crc , } ,u16 uint8x @lengthOf( int
+    // trailing space 
+    ) ,  @tag( 007)//x
+repeat f32a , }
+")).
+Eval vm_compute in ("<<<M1353>>>" ++ check (runes_of_ascii "packet metadata
+// c
+// trailing space 
+{ @calculatedFrom( ""a\\"" ) @rightPad
+// a // b
+// " ++ [27880; 37322]%N ++ runes_of_ascii "
+( '\x00' )	@rightPad	( '\x00'
+    )
+repeat x , }
+// `tick` ""quote"" 'q'
+// packet A { u8 x, }
+MetaData T { int32 lengthOf , trueish T
+    `line1
+line2` ,rootA crc
+`100% of %d` ,
+    A
+    charz , }
+MetaData  float { repeatCount
+    string_`// not a comment`, } MetaData x{roots options1 `" ++ [233]%N ++ runes_of_ascii "`,
+i8
+    // c
+    roots
+    , }
+")).
+Eval vm_compute in ("<<<M3487>>>" ++ check (runes_of_ascii "options	{	LittleEndian
 
-,  }
+=true	; 
+StringPrefixLenType=
 
-,u32
+    u16
+
+;
+
+ArrayPrefixLenType
+    =u64
+; FixedStringPadFromLeft
+
+=
+
+true;FixedStringPadChar  = ' ' 
+;
+	} packet  Reject	{  zchar[ 
+3]  OrderId ,
+int16
+Flags  , @leftPad (' ' )
+char[ 11	]
+
     x
 
-    @calculatedFrom(""CRC32""
-    )
-, }
+, u16 tag7
+	,  } 
+packet Quote{ 
+Reject, char[]
 
-")).
-Eval vm_compute in ("<<<M1584>>>" ++ check (runes_of_ascii "
+Qty 
+, 
+repeat	f32
+	f1
+,
+zchar[ 5 ]	Flags
 
-  options	{  LittleEndian= true
-
-    ; }
-
-    packet Sub
-
-    {	u8 
-a,@calculatedFrom(
-""CRC16""
-    )u64
-SubSum
     ,
-	}
-	root
+}
 
-    packet Frame  {
-	u16 MsgType,	u16
-BodyLen
-	@lengthOf( Body
-
-) 
-,Sub Body
+    root	packet
+Leg
+{ i32
+Px
     ,
-string
-note	,
-
-    @calculatedFrom(
-""CRC16"" )u64 
-Checksum
-
-,	u8
-    tail ,	}
-")).
-Eval vm_compute in ("<<<M554>>>" ++ check (runes_of_ascii "root packet tag { }  packet MetaDataX{char[007	]
-// c
-/// triple
-asx  @calculatedFrom( ""a\""b""
-) `say ""hi""` `say ""hi""`// " ++ [27880; 37322]%N ++ runes_of_ascii "
-,  @tag(4294967296 )
-    char[1//x
-] packetx @calculatedFrom(""a\""b""
-    ) ,
-// " ++ [128512]%N ++ runes_of_ascii " emoji
-// a // b
-@calculatedFrom(""" ++ [233]%N ++ runes_of_ascii "t" ++ [233]%N ++ runes_of_ascii """  ) repeat pack // " ++ [27880; 37322]%N ++ runes_of_ascii "
-,
-    } // c")).
-Eval vm_compute in ("<<<M551>>>" ++ check (runes_of_ascii "root packet tag { }  packet MetaDataX{char[007	]
-// c
-/// triple
-asx  @calculatedFrom( ""a\""b""
-false `say ""hi""`// " ++ [27880; 37322]%N ++ runes_of_ascii "
-,  @tag(4294967296 )
-    char[1//x
-] packetx @calculatedFrom(""a\""b""
-    ) ,
-// " ++ [128512]%N ++ runes_of_ascii " emoji
-// a // b
-@calculatedFrom(""" ++ [233]%N ++ runes_of_ascii "t" ++ [233]%N ++ runes_of_ascii """  ) repeat pack // " ++ [27880; 37322]%N ++ runes_of_ascii "
-,
-    } // c")).
-Eval vm_compute in ("<<<M39>>>" ++ check (runes_of_ascii "packet As
-{//
-@lengthOf(trueish ) uint8
-    repeatCount	,
-} options// c
-{As =	""1""matchKey
-=""x y"" ;
-Packet = ' '  }MetaData repeatCount { string BodyLength `{ , }` , char[
-    0123456789 ]//	t
-trueish
-    ,
-uint16 A, u32 falsey `two words`
-, } packet
-float{// c
-}
-
-")).
-Eval vm_compute in ("<<<M535>>>" ++ check (runes_of_ascii "root packet tag { }  packet MetaDataX{char[007	]
-// c
-/// triple
-@calculatedFrom(  asx ""a\""b""
-) `say ""hi""`// " ++ [27880; 37322]%N ++ runes_of_ascii "
-,  @tag(4294967296 )
-    char[1//x
-] packetx @calculatedFrom(""a\""b""
-    ) ,
-// " ++ [128512]%N ++ runes_of_ascii " emoji
-// a // b
-@calculatedFrom(""" ++ [233]%N ++ runes_of_ascii "t" ++ [233]%N ++ runes_of_ascii """  ) repeat pack // " ++ [27880; 37322]%N ++ runes_of_ascii "
-,
-    } // c")).
-Eval vm_compute in ("<<<M588>>>" ++ check (runes_of_ascii "root packet tag { }  packet MetaDataX{char[007	]
-// c
-/// triple
-asx  @calculatedFrom( ""a\""b""
-) `say ""hi""`// " ++ [27880; 37322]%N ++ runes_of_ascii "
-,  @tag(4294967296 )
-    char[1//x
- packetx @calculatedFrom(""a\""b""
-    ) ,
-// " ++ [128512]%N ++ runes_of_ascii " emoji
-// a // b
-@calculatedFrom(""" ++ [233]%N ++ runes_of_ascii "t" ++ [233]%N ++ runes_of_ascii """  ) repeat pack // " ++ [27880; 37322]%N ++ runes_of_ascii "
-,
-    } // c")).
-Eval vm_compute in ("<<<M578>>>" ++ check (runes_of_ascii "root packet tag { }  packet MetaDataX{char[007	]
-// c
-/// triple
-asx  @calculatedFrom( ""a\""b""
-) `say ""hi""`// " ++ [27880; 37322]%N ++ runes_of_ascii "
-,  @tag(4294967296 )
-    1//x
-] packetx @calculatedFrom(""a\""b""
-    ) ,
-// " ++ [128512]%N ++ runes_of_ascii " emoji
-// a // b
-@calculatedFrom(""" ++ [233]%N ++ runes_of_ascii "t" ++ [233]%N ++ runes_of_ascii """  ) repeat pack // " ++ [27880; 37322]%N ++ runes_of_ascii "
-,
-    } // c")).
-Eval vm_compute in ("<<<M1761>>>" ++ check (runes_of_ascii "root packet tag {
-}
-
-packet MetaDataX {
-    char[007] asx @calculatedFrom(""a\""b"") `say ""hi""`,
-    @tag(4294967296)
-    char[1] packetx @calculatedFrom(""a\""b""),
-    // " ++ [128512]%N ++ runes_of_ascii " emoji
-    // a // b
-    @calculatedFrom(""" ++ [233]%N ++ runes_of_ascii "t" ++ [233]%N ++ runes_of_ascii """)
-    repeat pack pack,
-}// c")).
-Eval vm_compute in ("<<<M237>>>" ++ check (runes_of_ascii "packet Foo //	t
-{ match
-    // a // b
-    i64_ //x
-as
-x_y_z {65535:  BodyLength
-,
-[3, ""CRC32"" ]
-:u
-, 255:
-T ,[ ""x y""]	:leftPad ,0123456789: As ,
-    } ,
-    zchar[	1
-    ]int
-, } packet
-float
-    { uint16
-Packet	,}")).
-Eval vm_compute in ("<<<M1445>>>" ++ check (runes_of_ascii "// top
-packet // c0
-Inner
-    // c1
-{ u8 a , // c5
-} root packet // c8
-P
-    // c9
-{ // c10
-Inner
-    // c11
-ref_obj // c12
-, // c13a
-  // c13b
-u8 // c14
-x
-    // c15
-, // c16a
-  // c16b
-} // c17
-")).
-Eval vm_compute in ("<<<M1755>>>" ++ check (runes_of_ascii "packet A {
-    match k as n {
-        ""x\
-        y"" : B,
-        [""x\
-        y"", 1] : C,
-        [
-            1, 2, 3, 4, 5,
-            ""x\
-            y""
-        ] : D,
-    },
-}")).
-Eval vm_compute in ("<<<M1488>>>" ++ check (runes_of_ascii "packet A {
-    u8 a,
-}
-packet B {
-    u16 b,
-}
-root packet P {
-    u8 K1,
-    u8 K2,
-    match K1 as M1 {
-        1 : A,
-    },
-    match K2 as M2 {
-        1 : B,
-    },
-}
-")).
-Eval vm_compute in ("<<<M471>>>" ++ check (runes_of_ascii "packet
-    // `tick` ""quote""" ++ [233]%N ++ runes_of_ascii " 'q'
-    crc
-// packet A { u8 x, }
+} ")).
+Eval vm_compute in ("<<<M693>>>" ++ check (runes_of_ascii "MetaData
+    MetaDataX{ char[ 65535 // c
+]
+falsey  ,
 //	t
-{
-u32 a1 ,
-    // trailing space 
-    roots
-charz //
-`two words`,	}
-    MetaData int {
-} /// triple")).
-Eval vm_compute in ("<<<M693>>>" ++ check (runes_of_ascii "root packet len // trailing space 
-{
-// " ++ [27880; 37322]%N ++ runes_of_ascii "
-//	t
-char[10
-] metadata	@lengthOf( o ) `crlf
-line`,
-    @rightPad
-( ' '
-string )
-    Header @calculatedFrom( ""a\\""
-    ), }
-")).
-Eval vm_compute in ("<<<M259>>>" ++ check (runes_of_ascii "options { Pad = char[]; u8x
-    // trailing space 
+// @lengthOf(
+asx
+lengthOf`say ""hi""`,	u8 // `tick` ""quote"" 'q'
+metadata , string body`
+` // " ++ [128512]%N ++ runes_of_ascii " emoji
+,
+} MetaData tag
+    {
+    char[ 007] u8x , x_y_z zchar
+    // a // b
+    `line1
+line2`
+, A As ,
+}
+MetaData msg_type { uint32 pack`tab	here` , }
+    options {trueish
     =
-    ""packet"";
-o = i64
-; stringy
-=""a\""b""
-packetx
-    // trailing space 
-    = 65535
-} options
-{ chars
-= '0'}")).
-Eval vm_compute in ("<<<M674>>>" ++ check (runes_of_ascii "root packet len // trailing space 
-{
-// " ++ [27880; 37322]%N ++ runes_of_ascii "
-//	t
-char[10
-] metadata	@lengthOf( o ) `crlf
-line`,
-    ;
-( ' '
-) string
-    Header @calculatedFrom( ""a\\""
-    ), }
-")).
-Eval vm_compute in ("<<<M60>>>" ++ check (runes_of_ascii "MetaData crc // trailing space 
-{}options
-{ metadata = 10 ; u = 65535
-repeatCount
-    = char[ 0123456789 // packet A { u8 x, }
-]  }MetaData i8i8{ }
-")).
-Eval vm_compute in ("<<<M2058>>>" ++ check (runes_of_ascii "packet A {
-    u16 len @lengthOf(body) `a
-        b
-      c`,
-    u32 crc @calculatedFrom(""CRC32"") `a
-        b
-      c`,
-    string body,
-}")).
-Eval vm_compute in ("<<<M2095>>>" ++ check (runes_of_ascii "
-packet
-	A{
-match	k  as	n
-
-    { 
-[""a"" ,  22,
-
-""c c"",  4,
-""e"" ,66	, ""g""
-,8 ,	""i""
-	,10	,
-""k"" , 12
-    ] :
-    B
-	2	: C
-    }
-	, 
-}")).
-Eval vm_compute in ("<<<M1942>>>" ++ check (runes_of_ascii "
-packet 
-A
-	{  match
-
-k  as  n{
-[
-    ""a""
-	,
-    ""bb""
-,""c c""
-	,""d""
-,
-
-""e""	, ""f"" 
-,
-
-""g""
-]
-:
-
-B 2
-
-    :C}
-
-    ,}
-
-")).
-Eval vm_compute in ("<<<M1246>>>" ++ check (runes_of_ascii "root packet matchKey { zchar[ 3 ] pack @calculatedFrom( ""a	b"" ) `doc`
-// c
-, } options { } MetaData A { int8 msg_type , }")).
-Eval vm_compute in ("<<<M1949>>>" ++ check (runes_of_ascii "  options
-{LittleEndian
+false
+    i8i8
+    = 007 ;
+    int
 =
-true ;
+char[]
+; }")).
+Eval vm_compute in ("<<<M4334>>>" ++ check (runes_of_ascii "root packet calculatedFrom {
+    T {
+        match stringy as options1 {
+            00 : stringy,
+            [1] : f32a,
+        },
+        string int @lengthOf(As),
+        repeat lengthOf A,
+    },
+    i8 charz @calculatedFrom(""packet""),
+    uint8 metadata @calculatedFrom(""packet"") `u8 x,`,
+    match Packet as u128 {
+        ""a	b"" : x,
+        // c
+    },
+}")).
+Eval vm_compute in ("<<<M696>>>" ++ check (runes_of_ascii "root packet f32a  {	_x BodyLength, char[	4294967296
+]	x_y_z // " ++ [128512]%N ++ runes_of_ascii " emoji
+`// not a comment` ,
+}
+packet	crc	{ @calculatedFrom(
+    ""a\\""// `tick` ""quote"" 'q'
+)
+repeat
+    trueish
+{ zchar[65535
+] x	`100% of %d` ,
+char[ 0123456789
+    ]options1 @lengthOf( u128)`100% of %d`
+    , char[] Z9_
+    `" ++ [233]%N ++ runes_of_ascii "` , string Foo @lengthOf( Header
+) , } // a // b
+,}")).
+Eval vm_compute in ("<<<M909>>>" ++ check (runes_of_ascii "root packet chars
+{ repeat zchar[ 10 ] rootA
+,@rightPad// `tick` ""quote"" 'q'
+( ) int8 crc
+    @lengthOf(
+    stringy
+    ) ,
+    //x
+    repeat
+tag
+    {repeat int ,
+repeat metadata , Z9_ ,} ,@calculatedFrom( ""packet"" )string_ @lengthOf(
+    x ) , rootA @calculatedFrom( ""a\\"") , u16  matchKey
+    `doc` , // `tick` ""quote"" 'q'
+}")).
+Eval vm_compute in ("<<<M1233>>>" ++ check (runes_of_ascii "MetaData
+    options1 { u16 stringy,	}
+    packet stringy
+{ // packet A { u8 x, }
+zchar
+    // " ++ [128512]%N ++ runes_of_ascii " emoji
+    @calculatedFrom(""`tick`"") ,
+    @rightPad ( '\x00' ) @leftPad('\x00'
+    )
+    @leftPad( '\x00'  )
+    rootA@calculatedFrom( """ ++ [28040; 24687]%N ++ runes_of_ascii """ ) , @leftPad ( '\x00' ) char[
+0]	u @calculatedFrom(
+    ""`tick`""	) ,// a // b
+}")).
+Eval vm_compute in ("<<<M465>>>" ++ check (runes_of_ascii "
+options { leftPad= '\x00' } options
+{} packet i64_  {char[ 255 ] matchKey @lengthOf( trueish )`tab	here` ,Pad`line1
+line2`	, repeat string_,trueish @calculatedFrom(""1""//
+) `` ,
+    @leftPad
+    ( '\x00' ) zchar[ 0 ] string_ `two words`
+    // packet A { u8 x, }
+    , @tag(3 ) // packet A { u8 x, }
+x
+,}
+")).
+Eval vm_compute in ("<<<M4265>>>" ++ check (runes_of_ascii "
 
-    }root
-packet P	{  u16 
-a,
-    u32
+  options
 
-    Sum@calculatedFrom( ""CRC32"" ) 
+{
+
+    }packet  calculatedFrom  {
+
+@lengthOf( trueish// " ++ [128512]%N ++ runes_of_ascii " emoji
+
+  )	@lengthOf( 
+
+    // a // b
+    asx
+	)@rightPad
+(
+)
+char stringy	@lengthOf(
+trueish
+	) ,
+	}MetaData
+packetx
+
+{  // " ++ [27880; 37322]%N ++ runes_of_ascii "
+	f32
+
+    Pad	`" ++ [28040; 24687; 31867; 22411]%N ++ runes_of_ascii "`
+,  int64
+msg_type 	 // 50% %s
+		,
+    int32 matchKey
+,
+
+    }
+")).
+Eval vm_compute in ("<<<M4466>>>" ++ check (runes_of_ascii "
+
+  // top
+options 
+    // c0
+
+{ // c1a
+	// c1b
+		FixedStringPadFromLeft
+    = // c3
+  true  // c4
+;
+} 
+// c6
+  root
+packet  // c8
+
+P// c9a
+    	// c9b
+  	{// c10
+char[ 	 // c11a
+  // c11b
+    4 // c12
+    ]  
+      // c13
+z
+    // c14
+	,	// c15a
+
+  // c15b
+	  }
+// c16
+ 
+")).
+Eval vm_compute in ("<<<M150>>>" ++ check (runes_of_ascii "
+root  packet	uint8x { // trailing space 
+@lengthOf(	a1 )uint64 i8i8
+@calculatedFrom(""it's"" ) , repeat float32 a1 ,@tag(
+1 ) @tag( 65535 )u32 options1, @lengthOf( i8i8
+) @lengthOf( int ) @leftPad ( ) char[42 ]len  @calculatedFrom( ""packet"")	, }
+root packet
+    u128 {}
+")).
+Eval vm_compute in ("<<<M1554>>>" ++ check (runes_of_ascii "// 50% %s
+packet	a1
+    { zchar[
+// a // b
+// 50% %s
+007]
+T @lengthOf(
+    ,@rightPad
+    // a // b
+    (
+'\x00')
+    o repeatCount , }  packet Logon {  }packet	Logon //x
+{ repeat // " ++ [128512]%N ++ runes_of_ascii " emoji
+uint16 u128
+    //
+    `a\`,
+falsey
+@calculatedFrom(""packet"" ) ,
+    } 	 ")).
+Eval vm_compute in ("<<<M1687>>>" ++ check (runes_of_ascii "// 50% %s
+packet	a1
+    { zchar[
+// a // b
+// 50% %s
+007]
+T `it's`
+    ,@rightPad
+    // a // b
+    (
+'\x00')
+    o repeatCount , }  packet Logon {  }packet	Logon //x
+{ repeat // " ++ [128512]%N ++ runes_of_ascii " emoji
+uint16 u128
+    //
+    `a\`,
+falsey
+@calculatedFrom(""packet"" ) ,
+    } } 	 ")).
+Eval vm_compute in ("<<<M1573>>>" ++ check (runes_of_ascii "// 50% %s
+packet	a1
+    { zchar[
+// a // b
+// 50% %s
+007]
+T `it's`
+    ,@rightPad
+    // a // b
+    (
+)'\x00'
+    o repeatCount , }  packet Logon {  }packet	Logon //x
+{ repeat // " ++ [128512]%N ++ runes_of_ascii " emoji
+uint16 u128
+    //
+    `a\`,
+falsey
+@calculatedFrom(""packet"" ) ,
+    } 	 ")).
+Eval vm_compute in ("<<<M1556>>>" ++ check (runes_of_ascii "// 50% %s
+packet	a1
+    { zchar[
+// a // b
+// 50% %s
+007]
+T `it's`
+    @rightPad
+    // a // b
+    (
+'\x00')
+    o repeatCount , }  packet Logon {  }packet	Logon //x
+{ repeat // " ++ [128512]%N ++ runes_of_ascii " emoji
+uint16 u128
+    //
+    `a\`,
+falsey
+@calculatedFrom(""packet"" ) ,
+    } 	 ")).
+Eval vm_compute in ("<<<M1639>>>" ++ check (runes_of_ascii "// 50% %s
+packet	a1
+    { zchar[
+// a // b
+// 50% %s
+007]
+T `it's`
+    ,@rightPad
+    // a // b
+    (
+'\x00')
+    o repeatCount , }  packet Logon {  }packet	Logon //x
+{ u8 // " ++ [128512]%N ++ runes_of_ascii " emoji
+uint16 u128
+    //
+    `a\`,
+falsey
+@calculatedFrom(""packet"" ) ,
+    } 	 ")).
+Eval vm_compute in ("<<<M824>>>" ++ check (runes_of_ascii "MetaData pack {
+    zchar[ 10 ] string_`" ++ [28040; 24687; 31867; 22411]%N ++ runes_of_ascii "` ,
+    msg_type chars
+, char[]o // trailing space 
+`a\` //x
+,	zchar[65535 ]
+    T ,
+    As T, packetx tag ,  } root packet o
+// c
+// `tick` ""quote"" 'q'
+{ }MetaData chars
+// trailing space 
+// 50% %s
+{ //x
+}
+")).
+Eval vm_compute in ("<<<M1147>>>" ++ check (runes_of_ascii "
+root packet T{
+string f32a@calculatedFrom( ""it's""
+)
+`say ""hi""`
+//
+// " ++ [128512]%N ++ runes_of_ascii " emoji
+, @tag(
+0123456789 )
+x_y_z @calculatedFrom( ""x y""
+)`two words`
+// `tick` ""quote"" 'q'
+// " ++ [27880; 37322]%N ++ runes_of_ascii "
+, @lengthOf(asx
+)
+A@calculatedFrom( ""\n""
+    ) // a // b
+`tab	here`
 , }
 ")).
-Eval vm_compute in ("<<<M2006>>>" ++ check (runes_of_ascii "packet o
+Eval vm_compute in ("<<<M3493>>>" ++ check (runes_of_ascii "
 
-{	repeat
-Logon  uint8x 
+  packet
+Sub	{u8
+
+a
+,  @calculatedFrom(  ""CRC16"" )
+i16
+SubSum
+    , } root 
+packet
+Frame 
+{
+    u16
+    MsgType
 ,
+u16
+BodyLen 
+@lengthOf( 
+Body ),
+Sub
+Body,
+string
+note  ,	@calculatedFrom(""CRC16""
+	)	i16
 
-    } 
-options	{
+Checksum
+    ,u8	tail
+	, } ")).
+Eval vm_compute in ("<<<M4402>>>" ++ check (runes_of_ascii "MetaData // @lengthOf(
+  options1{ 
+  // a // b
+	  float32  a1
 
-    asx 
-=zchar[ 
-3
+`a\`
 
-] // c
-    stringy 
-= '\x00'
-}
-")).
-Eval vm_compute in ("<<<M213>>>" ++ check (runes_of_ascii "root packet repeatCount
-// c
 // " ++ [128512]%N ++ runes_of_ascii " emoji
-{
-msg_type// `tick` ""quote"" 'q'
-{
-float64 lengthOf
-`" ++ [233]%N ++ runes_of_ascii "`,
-}
-    ,  }")).
-Eval vm_compute in ("<<<M1951>>>" ++ check (runes_of_ascii "packet
 
-    A
-{
-    match
+, leftPad
+	    // packet A { u8 x, }
+  Packet `" ++ [28040; 24687; 31867; 22411]%N ++ runes_of_ascii "`
 
-k as	n {[
-
-    ""a"" 
-,
-	22
     ,
-    ""c c""
-	,4
-, ""e""
+zchar[4294967296	]
+    repeatCount
+    ,f32
 
-]
-:B 2
-:C
+x , roots 
+packetx`" ++ [233]%N ++ runes_of_ascii "` ,
 
-}  ,
+    }
+")).
+Eval vm_compute in ("<<<M1352>>>" ++ check (runes_of_ascii "root // c
+packet As { char[0123456789 ]rootA @calculatedFrom(""CRC32""
+    )
+,@calculatedFrom( ""// no comment"" ) repeat char lengthOf , @lengthOf(
+//
+// @lengthOf(
+i64_ )
+    repeat char[0
+] T // trailing space 
+, } 	 ")).
+Eval vm_compute in ("<<<M3817>>>" ++ check (runes_of_ascii "root packet x_y_z {
+    int32 lengthOf `line1
+    line2`,
 }
+
+packet T {
+    u16 i64_,
+}
+
+packet Z9_ {
+    repeat string trueish `doc`,
+}
+
+options {
+    repeatCount = '0';
+    charz = i16;
+    tag = ""packet""
+}")).
+Eval vm_compute in ("<<<M975>>>" ++ check (runes_of_ascii "
+root	packet
+chars
+{ match
+    u as tag { 1 :	u//x
+, [	10 ]
+    : A
+    , ""`tick`"":BodyLength , }// " ++ [27880; 37322]%N ++ runes_of_ascii "
+,repeat u8x
+{ i16 // a // b
+u
+@lengthOf(
+i64_ ) , string
+    /// triple
+    Packet , } ,
+}
+")).
+Eval vm_compute in ("<<<M4338>>>" ++ check (runes_of_ascii "
+
+  root	/// triple
+  packet  calculatedFrom  {
+
+string  crc
+,
+
+    @calculatedFrom( 
+""abc"")u8
+
+float
+
+    , match	// " ++ [27880; 37322]%N ++ runes_of_ascii "
+
+BodyLength
+
+// 50% %s
+    as
+
+Packet  {  0: charz
+, }
+
+, }
 
 ")).
-Eval vm_compute in ("<<<M890>>>" ++ check (runes_of_ascii "packet A {
-  match k as n {
-    [1, ""bb"", 007, ""d"", 5, ""f"", 7, ""h"", 9, ""j"", 11] : B,
-    2 : C
-  },
+Eval vm_compute in ("<<<M3698>>>" ++ check (runes_of_ascii "MetaData x {
+    int32 int `line1
+    line2`,
+}
+
+packet o {
+    u32 charz,
+    char[1] x_y_z `
+    `,//	t
+    len lengthOf,
+    @lengthOf(charz)
+    i16 body `crlf
+    line`,
 }")).
-Eval vm_compute in ("<<<M927>>>" ++ check (runes_of_ascii "packet A {
+Eval vm_compute in ("<<<M571>>>" ++ check (runes_of_ascii "packet  u8x { @rightPad ( )match
+a1 as
+int
+{007 :matchKey ,""a	b"" :pack 3 :
+Z9_""x y""
+    : asx , } ,} packet
+// 50% %s
+//x
+metadata {string crc
+    // @lengthOf(
+    ,}")).
+Eval vm_compute in ("<<<M3943>>>" ++ check (runes_of_ascii "MetaData string_ {
+    uint32 f32a `crlf
+    line`,
+    zchar[0123456789] string_ `100% of %d`,
+    stringy u `it's`,
+    char Z9_,
+    a1 f32a,
+    char[1] a1,
+}")).
+Eval vm_compute in ("<<<M4108>>>" ++ check (runes_of_ascii "packet A {
     Inner {
-        u8 x `
-`,
-        Deep {
-            u8 y `
-`,
+        match k as n {
+            [
+                1, 22, 007, 4, 5,
+                66, 7, 8
+            ] : B,
         },
     },
 }")).
-Eval vm_compute in ("<<<M886>>>" ++ check (runes_of_ascii "packet A {
-  match k as n {
-    [1, 22, 007, 4, 5, 66, 7, 8, 9, 10, 11] : B,
-    2 : C
-  },
-}")).
-Eval vm_compute in ("<<<M181>>>" ++ check (runes_of_ascii "MetaData a1 { Foo body
-`{ , }`
-    , int32
-int`` ,i32 a1 `" ++ [28040; 24687; 31867; 22411]%N ++ runes_of_ascii "`
-, int8 msg_type `` , }
+Eval vm_compute in ("<<<M4256>>>" ++ check (runes_of_ascii "MetaData _x {
+    char[255] MetaDataX `doc`,
+}
 
+options {
+    f32a = zchar[42];
+    body = ""`tick`"";
+    As = true
+    tag = 3;
+    packetx = true
+}//	t")).
+Eval vm_compute in ("<<<M3685>>>" ++ check (runes_of_ascii "packet A
+{u8
+
+    a
+,
+
+    }	packet 
+B	{ u16 b ,
+
+}
+    root
+
+packet  P{u8 K  ,match K 
+as
+
+M
+{	[ 1
+
+,  2
+	] :
+    A ,3 :  B ,	7:
+A ,}  ,
+	}")).
+Eval vm_compute in ("<<<M2337>>>" ++ check (runes_of_ascii "options
+    {
+x_y_z// " ++ [27880; 37322]%N ++ runes_of_ascii "
+= 10 ; }
+packet body {
+    @calculatedFrom(
+// trailing space 
+// " ++ [27880; 37322]%N ++ runes_of_ascii "
+""1""
+)	match @lengthOf T as Foo
+    {
+255 :T , }
+,}")).
+Eval vm_compute in ("<<<M2052>>>" ++ check (runes_of_ascii "MetaData {
+BodyLength int8 Foo
+, string
+    MetaDataX , float zchar ,pack options1
+,asx string_, }
+packet u8x {Foo@lengthOf(charz )
+`" ++ [28040; 24687; 31867; 22411]%N ++ runes_of_ascii "`,  }
 ")).
-Eval vm_compute in ("<<<M1205>>>" ++ check (runes_of_ascii "MetaData float { float64 charz `
-` , } root packet chars { @rightPad
-// c
-( '0' ) Foo , }")).
-Eval vm_compute in ("<<<M1416>>>" ++ check (runes_of_ascii "packet chars { } packet MetaDataX { @tag( 42 ) i16 // c
-string_ , repeat x `say ""hi""` , }")).
-Eval vm_compute in ("<<<M1159>>>" ++ check (runes_of_ascii "packet metadata { Logon { A `" ++ [28040; 24687; 31867; 22411]%N ++ runes_of_ascii "` , tag o , } , zchar len `// not a comment` , }
-// c
+Eval vm_compute in ("<<<M84>>>" ++ check (runes_of_ascii "options{  }
+options
+    { o =
+//x
+//	t
+false packetx=
+    // @lengthOf(
+    """ ++ [233]%N ++ runes_of_ascii "t" ++ [233]%N ++ runes_of_ascii """	asx = 0123456789 Foo = int8 a1
+    = uint8
+    ;
+    } //	t")).
+Eval vm_compute in ("<<<M2207>>>" ++ check (runes_of_ascii "MetaData BodyLength
+{ int8 Foo
+, string
+    MetaDataX , float zchar ," ++ [21517; 23383]%N ++ runes_of_ascii " options1
+,asx string_, }
+packet u8x {Foo@lengthOf(charz )
+`" ++ [28040; 24687; 31867; 22411]%N ++ runes_of_ascii "`,  }
 ")).
-Eval vm_compute in ("<<<M1146>>>" ++ check (runes_of_ascii "packet metadata { Logon { A `" ++ [28040; 24687; 31867; 22411]%N ++ runes_of_ascii "` , tag o , } // c
-, zchar len `// not a comment` , }")).
-Eval vm_compute in ("<<<M1351>>>" ++ check (runes_of_ascii "packet o { repeat Logon uint8x
-// c
-, } options { asx = zchar[ 3 ] stringy = '\x00' }")).
-Eval vm_compute in ("<<<M856>>>" ++ check (runes_of_ascii "packet A {
+Eval vm_compute in ("<<<M1952>>>" ++ check (runes_of_ascii "
+packet leftPad {
+@leftPad( '0' '0')
+u32
+i64_ `100% of %d` ,repeat// 50% %s
+i8 chars
+    ,
+} MetaData
+    f32a
+{ // packet A { u8 x, }
+}")).
+Eval vm_compute in ("<<<M2113>>>" ++ check (runes_of_ascii "MetaData BodyLength
+{ int8 Foo
+, string
+    MetaDataX , float zchar ,pack f64
+,asx string_, }
+packet u8x {Foo@lengthOf(charz )
+`" ++ [28040; 24687; 31867; 22411]%N ++ runes_of_ascii "`,  }
+")).
+Eval vm_compute in ("<<<M2269>>>" ++ check (runes_of_ascii "options
+    {
+x_y_z// " ++ [27880; 37322]%N ++ runes_of_ascii "
+= 10 ; }
+packet body {
+    @calculatedFrom(
+// trailing space 
+// " ++ [27880; 37322]%N ++ runes_of_ascii "
+""1""
+) )	match T as Foo
+    {
+255 :T , }
+,}")).
+Eval vm_compute in ("<<<M2338>>>" ++ check (runes_of_ascii "options
+    {
+x_y_z// " ++ [27880; 37322]%N ++ runes_of_ascii "
+= 10 ; }
+p%acket body {
+    @calculatedFrom(
+// trailing space 
+// " ++ [27880; 37322]%N ++ runes_of_ascii "
+""1""
+)	match T as Foo
+    {
+255 :T , }
+,}")).
+Eval vm_compute in ("<<<M2013>>>" ++ check (runes_of_ascii "
+packet leftPad {
+@leftPad( '0')
+u32
+i64_ `100% of %d` ,repeat// 50% %s
+i8 chars
+    ,
+} MetaData
+    {
+f32a // packet A { u8 x, }
+}")).
+Eval vm_compute in ("<<<M2405>>>" ++ check (runes_of_ascii "MetaData
+    calculatedFrom
+{ zchar[  10 ]
+    As`tab	here`,
+    }// trailing space 
+options  { roots ='\x00' '\x00' ; } packet A
+{ }
+")).
+Eval vm_compute in ("<<<M2318>>>" ++ check (runes_of_ascii "options
+    {
+x_y_z// " ++ [27880; 37322]%N ++ runes_of_ascii "
+= 10 ; }
+packet body {
+    @calculatedFrom(
+// trailing space 
+// " ++ [27880; 37322]%N ++ runes_of_ascii "
+""1""
+)	match T as Foo
+    {
+255 :T , 
+,}")).
+Eval vm_compute in ("<<<M1600>>>" ++ check (runes_of_ascii "// 50% %s
+packet	a1
+    { zchar[
+// a // b
+// 50% %s
+007]
+T `it's`
+    ,@rightPad
+    // a // b
+    (
+'\x00')
+    o repeatCount ,")).
+Eval vm_compute in ("<<<M1595>>>" ++ check (runes_of_ascii "// 50% %s
+packet	a1
+    { zchar[
+// a // b
+// 50% %s
+007]
+T `it's`
+    ,@rightPad
+    // a // b
+    (
+'\x00')
+    o repeatCount")).
+Eval vm_compute in ("<<<M744>>>" ++ check (runes_of_ascii "//x
+MetaData // `tick` ""quote"" 'q'
+Pad  {string_ x,
+} packet x_y_z
+{ repeat rootA zchar  `crlf
+line` , @tag(
+7
+) tag tag,}")).
+Eval vm_compute in ("<<<M1971>>>" ++ check (runes_of_ascii "
+packet leftPad {
+@leftPad( '0')
+u32
+i64_  ,repeat// 50% %s
+i8 chars
+    ,
+} MetaData
+    f32a
+{ // packet A { u8 x, }
+}")).
+Eval vm_compute in ("<<<M1855>>>" ++ check (runes_of_ascii "packet o {
+    roots `it's`
+// trailing space 
+//x
+uint32 char[ 42
+    ]  A, // " ++ [27880; 37322]%N ++ runes_of_ascii "
+f64
+repeatCount
+    `crlf
+line`
+,}")).
+Eval vm_compute in ("<<<M1834>>>" ++ check (runes_of_ascii "packet o o {
+    roots `it's`
+// trailing space 
+//x
+, char[ 42
+    ]  A, // " ++ [27880; 37322]%N ++ runes_of_ascii "
+f64
+repeatCount
+    `crlf
+line`
+,}")).
+Eval vm_compute in ("<<<M1921>>>" ++ check (runes_of_ascii "packe""t o {
+    roots `it's`
+// trailing space 
+//x
+, char[ 42
+    ]  A, // " ++ [27880; 37322]%N ++ runes_of_ascii "
+f64
+repeatCount
+    `crlf
+line`
+,}")).
+Eval vm_compute in ("<<<M3672>>>" ++ check (runes_of_ascii "packet A {
+    B b `a
+        
+        b`,
+    B `a
+        
+        b`,
+    repeat B bs `a
+        
+        b`,
+}")).
+Eval vm_compute in ("<<<M3687>>>" ++ check (runes_of_ascii "
+MetaData 
+repeatCount
+	{ char[
+// packet A { u8 x, }
+  4294967296
+	] 
+chars
+
+    `// not a comment`
+    ,
+	} ")).
+Eval vm_compute in ("<<<M1395>>>" ++ check (runes_of_ascii "packet roots
+{ } options
+{	len
+= zchar[
+    //
+    42]
+    Packet
+    = // 50% %s
+007  ; pack  = ""a\\""
+;}
+")).
+Eval vm_compute in ("<<<M3003>>>" ++ check (runes_of_ascii "packet A {
   match k as n {
-    [1, 22, ""c c"", 4, 5, ""f"", 7, 8] : B
+    [1, ""bb"", 007, ""d"", 5, ""f"", 7, ""h"", 9, ""j"", 11, ""l""] : B,
     2 : C
   },
 }")).
-Eval vm_compute in ("<<<M1312>>>" ++ check (runes_of_ascii "MetaData body { i64
-// c
-pack `it's` , } packet stringy { int16 calculatedFrom , }")).
-Eval vm_compute in ("<<<M1679>>>" ++ check (runes_of_ascii "packet A {
+Eval vm_compute in ("<<<M1034>>>" ++ check (runes_of_ascii "MetaData i8i8 {rootA
+stringy
+, char[ 4294967296 ] asx , i8 uint8x, zchar  int
+,} // `tick` ""quote"" 'q'")).
+Eval vm_compute in ("<<<M2015>>>" ++ check (runes_of_ascii "
+packet leftPad {
+@leftPad( '0')
+u32
+i64_ `100% of %d` ,repeat// 50% %s
+i8 chars
+    ,
+} MetaData")).
+Eval vm_compute in ("<<<M2970>>>" ++ check (runes_of_ascii "packet A {
+  match k as n {
+    [""a"", ""bb"", 007, ""d"", ""e"", 66, ""g"", ""h"", 9] : B,
+    2 : C
+  },
+}")).
+Eval vm_compute in ("<<<M2412>>>" ++ check (runes_of_ascii "MetaData
+    calculatedFrom
+{ zchar[  10 ]
+    As`tab	here`,
+    }// trailing space 
+options  {")).
+Eval vm_compute in ("<<<M1819>>>" ++ check (runes_of_ascii "@lengthOfoptions{  lengthOf =//x
+i16;
+    BodyLength = 0 ; pack
+= false;
+    A = char[ 3 ] }")).
+Eval vm_compute in ("<<<M2419>>>" ++ check (runes_of_ascii "MetaData
+    calculatedFrom
+{ zchar[  10 ]
+    As`tab	here`,
+    }// trailing space 
+options")).
+Eval vm_compute in ("<<<M1275>>>" ++ check (runes_of_ascii "// @lengthOf(
+packet x { }packet
+falsey {
+    repeat char[ //	t
+65535 ] roots `doc` , }
+")).
+Eval vm_compute in ("<<<M3363>>>" ++ check (runes_of_ascii "
+packet Inner  { u8
+
+    a
+,
+
+}
+	root
+packet  P  {	Inner
+
+    ref_obj 
+, u8 
+x ,	}
+")).
+Eval vm_compute in ("<<<M1815>>>" ++ check (runes_of_ascii "options{  lengthOf =//x
+i16;
+    BodyLength = 0 ; pack
+= '1' false;
+    A = char[ 3 ] }")).
+Eval vm_compute in ("<<<M1726>>>" ++ check (runes_of_ascii "options{  lengthOf = =//x
+i16;
+    BodyLength = 0 ; pack
+= false;
+    A = char[ 3 ] }")).
+Eval vm_compute in ("<<<M1777>>>" ++ check (runes_of_ascii "options{  lengthOf =//x
+i16;
+    BodyLength = 0 ; pack
+= false A
+    ; = char[ 3 ] }")).
+Eval vm_compute in ("<<<M1787>>>" ++ check (runes_of_ascii "options{  lengthOf =//x
+i16;
+    BodyLength = 0 ; pack
+= false;
+    A char[ = 3 ] }")).
+Eval vm_compute in ("<<<M3079>>>" ++ check (runes_of_ascii "packet A {
+    u32 crc @calculatedFrom(""x\
+y""),
+    @calculatedFrom(""x\
+y"") u8 y,
+}")).
+Eval vm_compute in ("<<<M3727>>>" ++ check (runes_of_ascii "packet A {
     match k as n {
         [1, ""bb"", 007] : B,
         2 : C,
     },
 }")).
-Eval vm_compute in ("<<<M798>>>" ++ check (runes_of_ascii "packet A {
+Eval vm_compute in ("<<<M2934>>>" ++ check (runes_of_ascii "packet A {
   match k as n {
-    [""a"", ""bb"", ""c c"", ""d""] : B
+    [1, 22, 007, 4, 5, 66, 7] : B,
     2 : C
   },
 }")).
-Eval vm_compute in ("<<<M785>>>" ++ check (runes_of_ascii "packet A {
-  match k as n {
-    [""a"", ""bb"", ""c c""] : B
-    2 : C
-  },
-}")).
-Eval vm_compute in ("<<<M787>>>" ++ check (runes_of_ascii "packet A {
-  match k as n {
-    [1, ""bb"", 007] : B
-    2 : C
-  },
-}")).
-Eval vm_compute in ("<<<M103>>>" ++ check (runes_of_ascii "
-packet float {
-} MetaData As { char[]
-    trueish , }
-// " ++ [27880; 37322]%N ++ runes_of_ascii "
+Eval vm_compute in ("<<<M3273>>>" ++ check (runes_of_ascii "MetaData Foo { zchar[ 0 ] matchKey , } options { lengthOf = i32 u // c
+= 00 ; }")).
+Eval vm_compute in ("<<<M1315>>>" ++ check (runes_of_ascii "options{
+    u =
+// 50% %s
+// trailing space 
+'\x00' ; zchar//x
+= true ; }
 ")).
-Eval vm_compute in ("<<<M771>>>" ++ check (runes_of_ascii "packet A {
+Eval vm_compute in ("<<<M3880>>>" ++ check (runes_of_ascii "root packet i8i8 {
+    metadata ``,
+}
+
+root packet zchar {
+    // 50% %s
+}")).
+Eval vm_compute in ("<<<M12>>>" ++ check (runes_of_ascii "options	{
+    // `tick` ""quote"" 'q'
+    _x// trailing space 
+=""" ++ [28040; 24687]%N ++ runes_of_ascii """ ; }
+")).
+Eval vm_compute in ("<<<M1314>>>" ++ check (runes_of_ascii "
+root packet i8i8 { metadata `` , }root
+packet zchar { // 50% %s
+}
+")).
+Eval vm_compute in ("<<<M2815>>>" ++ check (runes_of_ascii "@tag( i32 = `doc` 255 int32 0123456789 @lengthOf( packet ' ' repeat")).
+Eval vm_compute in ("<<<M2875>>>" ++ check (runes_of_ascii "packet A {
+  match k as n {
+    [""a"", ""bb""] : B,
+    2 : C
+  },
+}")).
+Eval vm_compute in ("<<<M4304>>>" ++ check (runes_of_ascii "// c
+packet u8x {
+}
+
+MetaData crc {
+    char[4294967296] Foo,
+}")).
+Eval vm_compute in ("<<<M3297>>>" ++ check (runes_of_ascii "packet u8x { } // c
+MetaData crc { char[ 4294967296 ] Foo , }")).
+Eval vm_compute in ("<<<M3049>>>" ++ check (runes_of_ascii "packet A {
+    B b `
+x`,
+    B `
+x`,
+    repeat B bs `
+x`,
+}")).
+Eval vm_compute in ("<<<M2871>>>" ++ check (runes_of_ascii "packet A {
   match k as n {
     [""a""] : B
     2 : C
   },
 }")).
-Eval vm_compute in ("<<<M925>>>" ++ check (runes_of_ascii "packet A {
-    B b `
-`,
-    B `
-`,
-    repeat B bs `
-`,
-}")).
-Eval vm_compute in ("<<<M226>>>" ++ check (runes_of_ascii "MetaData trueish { u64// trailing space 
-i8i8 , }")).
-Eval vm_compute in ("<<<M272>>>" ++ check (runes_of_ascii "
-root  packet zchar
-    {zchar[007] Foo , }")).
-Eval vm_compute in ("<<<M1100>>>" ++ check (runes_of_ascii "root // c
-packet u128 { chars `it's` , }")).
-Eval vm_compute in ("<<<M1091>>>" ++ check (runes_of_ascii "packet A { u8 x,// a
-
-
-// b
-
- u8 y, }")).
-Eval vm_compute in ("<<<M947>>>" ++ check (runes_of_ascii "root packet A {
-    u8 x `x
-`,
-}")).
-Eval vm_compute in ("<<<M1033>>>" ++ check (runes_of_ascii "packet A {
- u8 x `d" ++ [12]%N ++ runes_of_ascii "`, // c" ++ [12]%N ++ runes_of_ascii "
-}")).
-Eval vm_compute in ("<<<M924>>>" ++ check (runes_of_ascii "packet A {
-    u8 x `
-`,
-}")).
-Eval vm_compute in ("<<<M285>>>" ++ check (runes_of_ascii "MetaData leftPad {
-}
+Eval vm_compute in ("<<<M2094>>>" ++ check (runes_of_ascii "MetaData BodyLength
+{ int8 Foo
+, string
+    MetaDataX ,")).
+Eval vm_compute in ("<<<M335>>>" ++ check (runes_of_ascii "packet
+MetaDataX
+{ }
+    root packet Packet  {
+} //")).
+Eval vm_compute in ("<<<M2596>>>" ++ check (runes_of_ascii "packet A { x @lengthOf(y) @calculatedFrom(""c""), }")).
+Eval vm_compute in ("<<<M19>>>" ++ check (runes_of_ascii "packet string_	{ }packet
+    matchKey
+    { }
 ")).
-Eval vm_compute in ("<<<M976>>>" ++ check (runes_of_ascii "packet A {
-}
-// c" ++ [12288]%N)).
-Eval vm_compute in ("<<<M1069>>>" ++ check (runes_of_ascii "MetaData M {
-}// c")).
-Eval vm_compute in ("<<<M1067>>>" ++ check (runes_of_ascii "
+Eval vm_compute in ("<<<M852>>>" ++ check (runes_of_ascii "root packet // `tick` ""quote"" 'q'
+i8i8 { }
+")).
+Eval vm_compute in ("<<<M919>>>" ++ check (runes_of_ascii "MetaData repeatCount	{
+//x
+// @lengthOf(
+}")).
+Eval vm_compute in ("<<<M2363>>>" ++ check (runes_of_ascii "MetaData
+Foo int64 Header //
+pack ,	} 	 ")).
+Eval vm_compute in ("<<<M3227>>>" ++ check (runes_of_ascii "root packet u128 { // c
+chars `doc` , }")).
+Eval vm_compute in ("<<<M612>>>" ++ check (runes_of_ascii "packet // trailing space 
+_x
+    { }")).
+Eval vm_compute in ("<<<M2389>>>" ++ check (runes_of_ascii "MetaData
+Foo {Header //\
+pack ,	} 	 ")).
+Eval vm_compute in ("<<<M2611>>>" ++ check (runes_of_ascii "packet A { match k as n { 1 : B } }")).
+Eval vm_compute in ("<<<M3719>>>" ++ check (runes_of_ascii "
+// c
+    options { 
+u8x	=	false	}")).
+Eval vm_compute in ("<<<M2718>>>" ++ check (runes_of_ascii "J" ++ [65533; 65533; 25; 65533; 65533]%N ++ runes_of_ascii "n" ++ [4; 0; 65533; 65533; 65533; 24; 65533; 65533; 65533]%N ++ runes_of_ascii "Gr3=" ++ [65533; 65533]%N ++ runes_of_ascii "s" ++ [40391; 65533]%N ++ runes_of_ascii "{" ++ [65533]%N ++ runes_of_ascii "6__	" ++ [65533]%N)).
+Eval vm_compute in ("<<<M2861>>>" ++ check (runes_of_ascii ") char[] ] @leftPad ; f64 uint8")).
+Eval vm_compute in ("<<<M3192>>>" ++ check (runes_of_ascii "MetaData M {
+}// c
+packet A {}")).
+Eval vm_compute in ("<<<M2745>>>" ++ check (runes_of_ascii "
+" ++ [1184]%N ++ runes_of_ascii "B" ++ [65533; 24; 262]%N ++ runes_of_ascii "@*>" ++ [65533; 14]%N ++ runes_of_ascii "R" ++ [24; 65533; 65533; 65533]%N ++ runes_of_ascii "@" ++ [65533; 31]%N ++ runes_of_ascii """" ++ [65533; 23; 65533; 65533; 65533; 22; 21; 0]%N)).
+Eval vm_compute in ("<<<M2829>>>" ++ check (runes_of_ascii "USeS}F}HZ&%%M6Elv.FL|-nL&ED")).
+Eval vm_compute in ("<<<M989>>>" ++ check (runes_of_ascii "
+options {a1 = true ; }
+")).
+Eval vm_compute in ("<<<M3973>>>" ++ check (runes_of_ascii "MetaData
+	metadata
 
-  packet A {}")).
-Eval vm_compute in ("<<<M1055>>>" ++ check (runes_of_ascii "// c x")).
-Eval vm_compute in ("<<<M726>>>" ++ check (runes_of_ascii "//")).
+{
+
+}")).
+Eval vm_compute in ("<<<M2767>>>" ++ check (runes_of_ascii "} `// not a comment` (")).
+Eval vm_compute in ("<<<M1008>>>" ++ check (runes_of_ascii "options {// a // b
+}")).
+Eval vm_compute in ("<<<M2678>>>" ++ check (runes_of_ascii "options options { }")).
+Eval vm_compute in ("<<<M3108>>>" ++ check (runes_of_ascii "// c" ++ [133]%N ++ runes_of_ascii "
+packet A {
+}")).
+Eval vm_compute in ("<<<M520>>>" ++ check (runes_of_ascii "packet Pad{ //
+}")).
+Eval vm_compute in ("<<<M3170>>>" ++ check (runes_of_ascii "packet A {
+}// c" ++ [6158]%N)).
+Eval vm_compute in ("<<<M2578>>>" ++ check (runes_of_ascii "packet A { x, }")).
+Eval vm_compute in ("<<<M4380>>>" ++ check (runes_of_ascii "
+// 50% %s
+")).
+Eval vm_compute in ("<<<M1846>>>" ++ check (runes_of_ascii "packet o {")).
+Eval vm_compute in ("<<<M2464>>>" ++ check (runes_of_ascii "optionss")).
+Eval vm_compute in ("<<<M2441>>>" ++ check (runes_of_ascii "zchar[")).
+Eval vm_compute in ("<<<M2481>>>" ++ check (runes_of_ascii "'\x0'")).
+Eval vm_compute in ("<<<M1135>>>" ++ check (runes_of_ascii "
+ //")).
+Eval vm_compute in ("<<<M2446>>>" ++ check (runes_of_ascii "u80")).
+Eval vm_compute in ("<<<M962>>>" ++ check (runes_of_ascii "  ")).
+Eval vm_compute in ("<<<M2682>>>" ++ check (runes_of_ascii "}")).
